@@ -1739,7 +1739,7 @@ theorem validateP_congr (env : Env) (ph : Bool) (text text' : Str) (p p' : Parse
     (hNA : isNA env p.root0 = isNA env p'.root0)
     (hT : (errCodes (tagIssues env ph p)).Perm (errCodes (tagIssues env ph p')))
     (hM : (errCodes (semIssues env ph text.length p)).Perm (errCodes (semIssues env ph text'.length p')))
-    (hF : hasError (basicP env ph text p) = false →
+    (hF : hasError (basicP env ph text p) = false → hasError (basicP env ph text' p') = false →
       (errCodes (fullIssues env text.length p)).Perm (errCodes (fullIssues env text'.length p'))) :
     (errCodes (validateP env ph text p)).Perm (errCodes (validateP env ph text' p')) := by
   have hB : (errCodes (basicP env ph text p)).Perm (errCodes (basicP env ph text' p')) := by
@@ -1764,7 +1764,7 @@ theorem validateP_congr (env : Env) (ph : Bool) (text text' : Str) (p p' : Parse
   by_cases h : hasError (basicP env ph text p) = true
   · simpa [h] using hB
   · have h' : hasError (basicP env ph text p) = false := by simpa using h
-    have := hB.append (hF h')
+    have := hB.append (hF h' (by rw [← hasError_congr hB]; exact h'))
     rw [← errCodes_append, ← errCodes_append] at this
     simpa [h'] using this
 
@@ -1925,21 +1925,36 @@ theorem errCodes_styleIssues (t : RTag) : errCodes (styleIssues t) = [] := by
   · simp [errCodes, errors, codes, Issue.isError, tagIssue, Issue.plain, Kind.sev, sevWarning, sev_STYLE_WARNING]
   · rfl
 
-theorem individualIssues_core (h : Core t t') (b b' : Bool) :
-    errCodes (individualIssues env true b' t') = errCodes (individualIssues env true b t) := by
+theorem placeholderFrom_sigs (t t' : RTag) : ∀ (s : Str) (a a' i i' : Nat),
+    sigs (placeholderFrom t' a' i' s) = sigs (placeholderFrom t a i s)
+  | [], _, _, _, _ => rfl
+  | c :: cs, a, a', i, i' => by
+    simp only [placeholderFrom, sigs_append, sigs_ite, sigs_cons, sigs_nil, sig_mk, sev_subIssue]
+    rw [placeholderFrom_sigs t t' cs a a' (i + 1) (i' + 1)]
+
+theorem individualIssues_core (h : Core t t') (ph b : Bool) :
+    errCodes (individualIssues env ph b t') = errCodes (individualIssues env ph b t) := by
   unfold individualIssues
-  simp only [errCodes_append, errCodes_styleIssues, List.append_nil, Bool.not_true, Bool.false_eq_true, ↓reduceIte]
+  simp only [errCodes_append, errCodes_styleIssues, List.append_nil]
   rw [errCodes_of_sigs (existsIssues_core h), h.entryAttr]
   congr 1
   congr 1
+  · congr 1
+    split
+    · unfold placeholderIssues
+      split
+      · rfl
+      · rw [h.extension]
+        exact errCodes_of_sigs (placeholderFrom_sigs t t' _ _ _ 0 0)
+    · rfl
   · exact errCodes_of_sigs (by simp)
   · exact errCodes_of_sigs (by simp)
 
-/-- **one tag, phase 3** (placeholders allowed, the default of `HedString.validate`) -/
-theorem tagSemIssues_core (h : Core t t') (b b' : Bool) :
-    errCodes (tagSemIssues env true b' t') = errCodes (tagSemIssues env true b t) := by
+/-- **one tag, phase 3** -/
+theorem tagSemIssues_core (h : Core t t') (ph b : Bool) :
+    errCodes (tagSemIssues env ph b t') = errCodes (tagSemIssues env ph b t) := by
   unfold tagSemIssues
-  simp only [h.shortBase, h.extension, errCodes_append, individualIssues_core h b b']
+  simp only [h.shortBase, h.extension, errCodes_append, individualIssues_core h ph b]
   congr 1
   · congr 1
     exact errCodes_of_sigs (by simp)
@@ -3049,28 +3064,148 @@ section phases
 open HedVerif.Dup (Adm CleanStr)
 variable {R : RTag → RTag → Prop} {env : Env}
 
-theorem individualPhase_codes (env : Env) (len : Nat) (root : List RNode) :
-    (errCodes (individualPhase env true len root)).Perm
-      ((tagsList root).flatMap fun t => errCodes (tagSemIssues env true false t)) := by
-  unfold individualPhase
-  simp only [errCodes_flatMap]
-  have : ∀ g : GV, ∀ b : Bool, ((directTags g.kids).flatMap fun t => errCodes (tagSemIssues env true b t)) =
-      ((directTags g.kids).flatMap fun t => errCodes (tagSemIssues env true false t)) := by
-    intro g b
-    congr 1
-  simp only [this]
-  show ((allGroups len root).flatMap fun g => (directTags g.kids).flatMap fun t =>
-    errCodes (tagSemIssues env true false t)).Perm _
-  rw [← List.flatMap_assoc]
-  exact (allGroups_directTags len root).flatMap_right _
+/-! #### the definition flag of `_validate_individual_tags_in_hed_string` is positional -/
 
-theorem individualPhase_sim (hR : ∀ t t', R t t' → Core t t') {l l' : List RNode} (h : ForestSim R l l')
-    (len len' : Nat) :
-    (errCodes (individualPhase env true len l)).Perm (errCodes (individualPhase env true len' l')) := by
-  refine (individualPhase_codes env len l).trans (List.Perm.trans ?_ (individualPhase_codes env len' l').symm)
-  apply h.tags_flatMap
-  intro t t' htt
-  exact List.Perm.of_eq (tagSemIssues_core (hR t t' htt) false false).symm
+mutual
+theorem groupsNode_isGroup : ∀ (top : Bool) (k : RNode) (g : GV), g ∈ groupsNode top k → g.isGroup = true
+  | _, .tag _, _, h => by simp [groupsNode] at h
+  | top, .group s ks, g, h => by
+    simp only [groupsNode, List.mem_cons] at h
+    rcases h with rfl | h
+    · rfl
+    · exact groupsList_isGroup false ks g h
+theorem groupsList_isGroup : ∀ (top : Bool) (l : List RNode) (g : GV), g ∈ groupsList top l → g.isGroup = true
+  | _, [], _, h => by simp [groupsList] at h
+  | top, k :: ks, g, h => by
+    simp only [groupsList, List.mem_append] at h
+    rcases h with h | h
+    · exact groupsNode_isGroup top k g h
+    · exact groupsList_isGroup top ks g h
+end
+
+mutual
+theorem groupsNode_start : ∀ (top : Bool) (k : RNode) (g : GV), g ∈ groupsNode top k → g.span.1 ∈ rstartsNode k
+  | _, .tag _, _, h => by simp [groupsNode] at h
+  | top, .group s ks, g, h => by
+    simp only [groupsNode, List.mem_cons] at h
+    rcases h with rfl | h
+    · simp [rstartsNode]
+    · simp only [rstartsNode, List.mem_cons]; exact Or.inr (groupsList_start false ks g h)
+theorem groupsList_start : ∀ (top : Bool) (l : List RNode) (g : GV), g ∈ groupsList top l → g.span.1 ∈ rstartsList l
+  | _, [], _, h => by simp [groupsList] at h
+  | top, k :: ks, g, h => by
+    simp only [groupsList, List.mem_append] at h
+    simp only [rstartsList, List.mem_append]
+    rcases h with h | h
+    · exact Or.inl (groupsNode_start top k g h)
+    · exact Or.inr (groupsList_start top ks g h)
+end
+
+theorem rstartsList_eq (l : List RNode) : rstartsList l = l.flatMap rstartsNode := by
+  induction l with
+  | nil => rfl
+  | cons k ks ih => simp [rstartsList, ih]
+
+theorem flatMap_congr' {α β : Type} {l : List α} {f g : α → List β} (h : ∀ x ∈ l, f x = g x) :
+    l.flatMap f = l.flatMap g := by
+  induction l with
+  | nil => rfl
+  | cons x xs ih =>
+    simp only [List.flatMap_cons, h x (by simp), ih (fun y hy => h y (by simp [hy]))]
+
+/-- a top-level member that is a group holding a `Definition` tag -/
+def holdsDefNode (env : Env) : RNode → Bool
+  | .tag _ => false
+  | .group _ kids => holdsDefinition env kids
+
+theorem definitionSpans_eq (env : Env) (root : List RNode) :
+    definitionSpans env root = root.flatMap fun k => if holdsDefNode env k then (groupsNode true k).map (·.span) else [] := by
+  unfold definitionSpans
+  induction root with
+  | nil => rfl
+  | cons k ks ih =>
+    cases k with
+    | tag t => simpa [directGroups, holdsDefNode] using ih
+    | group s kids =>
+      simp only [directGroups, List.flatMap_cons, holdsDefNode, groupsNode, List.map_cons, ih]
+
+/-- with distinct start positions, "the span is one of the definition spans" says "sits in a top-level group that
+holds a Definition" -/
+theorem isDefGroup_pos (env : Env) (pre post : List RNode) (k : RNode)
+    (hn : (rstartsList (pre ++ k :: post)).Nodup) (g : GV) (hg : g ∈ groupsNode true k) :
+    isDefGroup env (pre ++ k :: post) g = holdsDefNode env k := by
+  unfold isDefGroup
+  rw [groupsNode_isGroup true k g hg, Bool.true_and, definitionSpans_eq, Bool.eq_iff_iff, List.contains_iff_mem]
+  rw [rstartsList_eq, List.flatMap_append, List.flatMap_cons] at hn
+  have hst := groupsNode_start true k g hg
+  constructor
+  · intro hm
+    obtain ⟨k', hk', hm'⟩ := List.mem_flatMap.mp hm
+    by_cases hd : holdsDefNode env k' = true
+    · simp only [hd, ↓reduceIte, List.mem_map] at hm'
+      obtain ⟨g', hg', hsp⟩ := hm'
+      have hst' := groupsNode_start true k' g' hg'
+      rw [hsp] at hst'
+      rw [List.nodup_append] at hn
+      obtain ⟨_, hn2, hdis⟩ := hn
+      rw [List.nodup_append] at hn2
+      obtain ⟨_, _, hdis2⟩ := hn2
+      rcases List.mem_append.mp hk' with hp | hp
+      · exact absurd rfl (hdis g.span.1 (List.mem_flatMap.mpr ⟨k', hp, hst'⟩) g.span.1
+          (List.mem_append.mpr (Or.inl hst)))
+      · rcases List.mem_cons.mp hp with rfl | hp
+        · exact hd
+        · exact absurd rfl (hdis2 g.span.1 hst g.span.1 (List.mem_flatMap.mpr ⟨k', hp, hst'⟩))
+    · simp [hd] at hm'
+  · intro hd
+    refine List.mem_flatMap.mpr ⟨k, by simp, ?_⟩
+    simp only [hd, ↓reduceIte, List.mem_map]
+    exact ⟨g, hg, rfl⟩
+
+/-- `_validate_individual_tags_in_hed_string`, flag by position -/
+theorem individualPhase_struct (env : Env) (ph : Bool) (len : Nat) (root : List RNode) (hn : (rstartsList root).Nodup) :
+    individualPhase env ph len root =
+      (directTags root).flatMap (tagSemIssues env ph false) ++
+      root.flatMap fun k => (groupsNode true k).flatMap fun g =>
+        (directTags g.kids).flatMap (tagSemIssues env ph (holdsDefNode env k)) := by
+  unfold individualPhase
+  simp only [allGroups, List.flatMap_cons, groupsList_eq, List.flatMap_assoc]
+  congr 1
+  apply flatMap_congr'
+  intro k hk
+  obtain ⟨pre, post, rfl⟩ := List.append_of_mem hk
+  apply flatMap_congr'
+  intro g hg
+  rw [isDefGroup_pos env pre post k hn g hg]
+
+theorem holdsDefNode_sim (hR : ∀ t t', R t t' → Core t t') {k k' : RNode} (h : NodeSim R k k') :
+    holdsDefNode env k = holdsDefNode env k' := by
+  cases k with
+  | tag t => cases k' <;> simp_all [NodeSim, holdsDefNode]
+  | group s ks =>
+    cases k' with
+    | tag t => simp [NodeSim] at h
+    | group s' ks' =>
+      have hf : ForestSim R ks ks' := by simpa [NodeSim, ForestSim] using h
+      simp only [holdsDefNode, holdsDefinition]
+      exact hf.directTags_any _ _ (fun t t' htt => by rw [(hR t t' htt).shortBase])
+
+theorem individualPhase_sim (hR : ∀ t t', R t t' → Core t t') (ph : Bool) {l l' : List RNode} (h : ForestSim R l l')
+    (len len' : Nat) (hn : (rstartsList l).Nodup) (hn' : (rstartsList l').Nodup) :
+    (errCodes (individualPhase env ph len l)).Perm (errCodes (individualPhase env ph len' l')) := by
+  rw [individualPhase_struct env ph len l hn, individualPhase_struct env ph len' l' hn', errCodes_append, errCodes_append]
+  refine List.Perm.append ?_ ?_
+  · rw [errCodes_flatMap, errCodes_flatMap]
+    exact h.directTags_flatMap _ _ (fun t t' htt => List.Perm.of_eq (tagSemIssues_core (hR t t' htt) ph false).symm)
+  · rw [errCodes_flatMap, errCodes_flatMap]
+    apply h.flatMap_perm
+    intro k _ k' _ hk
+    rw [errCodes_flatMap, errCodes_flatMap, holdsDefNode_sim hR hk]
+    apply NodeSim.groups_flatMap _ _ true k k' hk
+    intro g _ g' _ hgg
+    rw [errCodes_flatMap, errCodes_flatMap]
+    exact hgg.2.2.directTags_flatMap _ _
+      (fun t t' htt => List.Perm.of_eq (tagSemIssues_core (hR t t' htt) ph _).symm)
 
 /-- **the full-string checks** (the rule on Onset/Offset/Inset groups is a premise here) -/
 theorem fullPhase_sim (hR : ∀ t t', R t t' → Core t t') (hs : env.var.sortCanonical = true)
@@ -3169,19 +3304,734 @@ theorem ForestSim.recanon (hrec : ∀ t t', R t t' → R (canon env t).1 (canon 
 
 theorem parse_wf (env : Env) (text : Str) : ParsedWF env (parse env text) := ⟨rfl, rfl⟩
 
+end phases
+
+theorem canon_span (env : Env) (t : RTag) : (canon env t).1.span = t.span := by
+  unfold canon
+  split
+  · rfl
+  · simp only
+    cases Schema.find env.vocab fold (List.drop t.ns.length (strOf env t)) <;> rfl
+
+theorem rstarts_recanon (env : Env) : ∀ (l : List RNode), rstartsList (recanonList env l).1 = rstartsList l := by
+  have hc : ∀ t : RTag, (canon env t).1.span = t.span := canon_span env
+  have key : (∀ k : RNode, rstartsNode (recanonNode env k).1 = rstartsNode k) ∧
+      (∀ l : List RNode, rstartsList (recanonList env l).1 = rstartsList l) := by
+    exact ⟨fun k => goN hc k, fun l => goL hc l⟩
+  exact key.2
+where
+  goN (hc : ∀ t : RTag, (canon env t).1.span = t.span) : ∀ k : RNode, rstartsNode (recanonNode env k).1 = rstartsNode k
+    | .tag t => by simp [recanonNode, rstartsNode, hc]
+    | .group s ks => by simp [recanonNode, rstartsNode, goL hc ks]
+  goL (hc : ∀ t : RTag, (canon env t).1.span = t.span) : ∀ l : List RNode, rstartsList (recanonList env l).1 = rstartsList l
+    | [] => rfl
+    | k :: ks => by simp [recanonList, rstartsList, goN hc k, goL hc ks]
+
+/-! ### the rule on Onset/Offset/Inset groups (`validate_onset_offset`) -/
+
+/-- the one code of the rule -/
+def tcode : Str := val_TEMPORAL_TAG_ERROR
+
+theorem errCodes_onset_kind (k : Kind) (t : RTag)
+    (hk : k = .onsetNoDef ∨ k = .onsetWrongNumberGroups ∨ k = .onsetTagOutsideGroup ∨ k = .onsetTooManyDefs) :
+    errCodes [tagIssue k t] = [tcode] := by
+  rcases hk with rfl | rfl | rfl | rfl <;> rfl
+
+/-- how many issues the rule reports for one anchored group, the check of the definition itself aside -/
+def onsetCount (env : Env) (onset : RTag) (kids : List RNode) : Nat :=
+  match defItemsOf env kids with
+  | [] => 1
+  | [(_, dspan)] =>
+    let children := kids.filter fun c => nodeSpan c != dspan && nodeSpan c != onset.span
+    let children := children.filter fun c => match c with
+      | .tag t => shortBase env t != delayKey
+      | .group _ _ => true
+    if children.length > (if shortBase env onset == offsetKey then 0 else 1) then 1
+    else (match children with
+      | .tag _ :: _ => 1
+      | _ => 0)
+  | _ :: _ :: _ => 1
+
+theorem onsetGroup_codes (env : Env) (onset : RTag) (kids : List RNode)
+    (hdef : ∀ it ∈ defItemsOf env kids, onsetDefIssues env it.1 = []) :
+    errCodes (onsetGroupIssues env onset kids) = List.replicate (onsetCount env onset kids) tcode := by
+  unfold onsetGroupIssues onsetCount
+  cases hd : defItemsOf env kids with
+  | nil => exact errCodes_onset_kind _ _ (Or.inl rfl)
+  | cons it rest =>
+    obtain ⟨dt, dspan⟩ := it
+    cases rest with
+    | cons it2 rest2 => exact errCodes_onset_kind _ _ (Or.inr (Or.inr (Or.inr rfl)))
+    | nil =>
+      have h0 : onsetDefIssues env dt = [] := hdef (dt, dspan) (by simp [hd])
+      simp only [h0, List.append_nil]
+      generalize (List.filter (fun c => match c with
+        | RNode.tag t => shortBase env t != delayKey
+        | RNode.group _ _ => true) (List.filter (fun c => nodeSpan c != dspan && nodeSpan c != onset.span) kids)) = ch
+      generalize (if (shortBase env onset == offsetKey) = true then 0 else 1) = lim
+      by_cases hgt : ch.length > lim
+      · simp only [hgt, ↓reduceIte]
+        exact errCodes_onset_kind _ _ (Or.inr (Or.inl rfl))
+      · simp only [hgt, ↓reduceIte]
+        cases ch with
+        | nil => rfl
+        | cons c cs =>
+          cases c with
+          | tag t => exact errCodes_onset_kind _ _ (Or.inr (Or.inr (Or.inl rfl)))
+          | group _ _ => rfl
+
+
+/-! list bookkeeping -/
+
+theorem eq_of_nodup_map {α β : Type} (f : α → β) : ∀ (l : List α), (l.map f).Nodup → ∀ x ∈ l, ∀ y ∈ l, f x = f y → x = y
+  | [], _, _, hx, _, _, _ => by simp at hx
+  | a :: l, hn, x, hx, y, hy, h => by
+    rw [List.map_cons, List.nodup_cons] at hn
+    rcases List.mem_cons.mp hx with rfl | hx' <;> rcases List.mem_cons.mp hy with rfl | hy'
+    · rfl
+    · exact absurd (List.mem_map.mpr ⟨y, hy', h.symm⟩) hn.1
+    · exact absurd (List.mem_map.mpr ⟨x, hx', h⟩) hn.1
+    · exact eq_of_nodup_map f l hn.2 x hx' y hy' h
+
+theorem countP_eq_one_of_unique {α : Type} (p : α → Bool) : ∀ (l : List α) (x : α), l.Nodup → x ∈ l → p x = true →
+    (∀ y ∈ l, p y = true → y = x) → l.countP p = 1
+  | [], _, _, hx, _, _ => by simp at hx
+  | a :: l, x, hn, hx, hp, hu => by
+    rw [List.nodup_cons] at hn
+    rcases List.mem_cons.mp hx with rfl | hx'
+    · have : l.countP p = 0 := by
+        rw [List.countP_eq_zero]
+        intro y hy hpy
+        have := hu y (by simp [hy]) (by simpa using hpy)
+        exact hn.1 (this ▸ hy)
+      simp [List.countP_cons, hp, this]
+    · have ha : p a = false := by
+        cases h : p a with
+        | false => rfl
+        | true => exact absurd (hu a (by simp) h ▸ hx') hn.1
+      simp only [List.countP_cons, ha, Bool.false_eq_true, ↓reduceIte, Nat.add_zero]
+      exact countP_eq_one_of_unique p l x hn.2 hx' hp (fun y hy => hu y (by simp [hy]))
+
+theorem nodup_of_nodup_map {α β : Type} (f : α → β) {l : List α} (h : (l.map f).Nodup) : l.Nodup := by
+  induction l with
+  | nil => simp
+  | cons a l ih =>
+    rw [List.map_cons, List.nodup_cons] at h
+    rw [List.nodup_cons]
+    exact ⟨fun hm => h.1 (List.mem_map.mpr ⟨a, hm, rfl⟩), ih h.2⟩
+
+/-- a list split into four classes, element by element -/
+theorem length_four {α : Type} (q p1 p2 p3 : α → Bool) : ∀ (l : List α),
+    (∀ x ∈ l, (q x).toNat + (p1 x).toNat + (p2 x).toNat + (p3 x).toNat = 1) →
+    l.length = l.countP q + l.countP p1 + l.countP p2 + l.countP p3
+  | [], _ => rfl
+  | a :: l, h => by
+    have ih := length_four q p1 p2 p3 l (fun x hx => h x (by simp [hx]))
+    have ha := h a (by simp)
+    simp only [List.length_cons, List.countP_cons, ih]
+    cases hq : q a <;> cases h1 : p1 a <;> cases h2 : p2 a <;> cases h3 : p3 a <;>
+      simp [hq, h1, h2, h3] at ha ⊢ <;> omega
+
+section onset
+variable {env : Env}
+
+def startOf (c : RNode) : Nat := (nodeSpan c).1
+
+def isDelayNode (env : Env) : RNode → Bool
+  | .tag t => shortBase env t == delayKey
+  | .group _ _ => false
+
+def anchorP (env : Env) (t : RTag) : Bool := (temporalKeys.map fold).contains (fold (shortBase env t))
+
+def defItemsNode (env : Env) : RNode → List (RTag × (Nat × Nat))
+  | .tag t => if shortBase env t == defKey then [(t, t.span)] else []
+  | .group s kids => ((directTags kids).filter (fun t => shortBase env t == defExpandKey)).map (fun t => (t, s))
+
+theorem defItemsOf_eq (env : Env) (l : List RNode) : defItemsOf env l = l.flatMap (defItemsNode env) := by
+  induction l with
+  | nil => rfl
+  | cons k ks ih => cases k <;> simp [defItemsOf, defItemsNode, ih]
+
+theorem anchor_not_delay {t : RTag} (h : anchorP env t = true) : (shortBase env t == delayKey) = false := by
+  cases hx : shortBase env t == delayKey with
+  | false => rfl
+  | true =>
+    rw [beq_iff_eq] at hx
+    rw [anchorP, hx] at h
+    exact absurd h (by decide)
+
+theorem anchor_not_def {t : RTag} (h : anchorP env t = true) : (shortBase env t == defKey) = false := by
+  cases hx : shortBase env t == defKey with
+  | false => rfl
+  | true =>
+    rw [beq_iff_eq] at hx
+    rw [anchorP, hx] at h
+    exact absurd h (by decide)
+
+theorem mem_directTags {l : List RNode} {t : RTag} : t ∈ directTags l ↔ RNode.tag t ∈ l := by
+  induction l with
+  | nil => simp [directTags]
+  | cons k ks ih => cases k <;> simp [directTags, ih]
+
+/-- the node a definition item stands for -/
+theorem defItem_node {kids : List RNode} {dt : RTag} {dspan : Nat × Nat} (h : (dt, dspan) ∈ defItemsOf env kids) :
+    ∃ x ∈ kids, nodeSpan x = dspan ∧ isDelayNode env x = false ∧
+      ((x = .tag dt ∧ (shortBase env dt == defKey) = true) ∨ isTagNode x = false) := by
+  rw [defItemsOf_eq] at h
+  obtain ⟨x, hx, hm⟩ := List.mem_flatMap.mp h
+  refine ⟨x, hx, ?_⟩
+  cases x with
+  | tag t =>
+    simp only [defItemsNode] at hm
+    split at hm
+    · rename_i hd
+      simp only [List.mem_singleton, Prod.mk.injEq] at hm
+      obtain ⟨rfl, rfl⟩ := hm
+      refine ⟨rfl, ?_, Or.inl ⟨rfl, hd⟩⟩
+      simp only [isDelayNode]
+      rw [beq_iff_eq] at hd
+      rw [hd]; decide
+    · simp at hm
+  | group s ks =>
+    simp only [defItemsNode, List.mem_map] at hm
+    obtain ⟨t, _, he⟩ := hm
+    simp only [Prod.mk.injEq] at he
+    exact ⟨he.2, rfl, Or.inr rfl⟩
+
+end onset
+
+section onset2
+variable {env : Env}
+
+theorem defTag_item {kids : List RNode} {t : RTag} (ht : t ∈ directTags kids) (hd : (shortBase env t == defKey) = true) :
+    (t, t.span) ∈ defItemsOf env kids := by
+  rw [defItemsOf_eq]
+  exact List.mem_flatMap.mpr ⟨.tag t, mem_directTags.mp ht, by simp [defItemsNode, hd]⟩
+
+theorem directTags_filter_nodes (p : RTag → Bool) (kids : List RNode) :
+    ((directTags kids).filter p).map (fun t => RNode.tag t) =
+      kids.filter fun c => match c with | .tag t => p t | .group _ _ => false := by
+  induction kids with
+  | nil => rfl
+  | cons k ks ih =>
+    cases k with
+    | tag t => by_cases h : p t = true <;> simp [directTags, List.filter_cons, h, ih]
+    | group s g => simpa [directTags, List.filter_cons] using ih
+
+/-- the members left over once the Def, the anchor and the Delay tags are set aside: how many, and how many tags -/
+theorem children_counts {kids : List RNode} (hN : (kids.map startOf).Nodup) {dt : RTag} {dspan : Nat × Nat}
+    (hitems : defItemsOf env kids = [(dt, dspan)]) {onset : RTag} (honset : onset ∈ directTags kids)
+    (ha : anchorP env onset = true) :
+    let ch := (kids.filter fun c => nodeSpan c != dspan && nodeSpan c != onset.span).filter fun c => match c with
+      | .tag t => shortBase env t != delayKey
+      | .group _ _ => true
+    ch.length + 2 + kids.countP (isDelayNode env) = kids.length ∧
+    ch.countP isTagNode + ((directTags kids).filter fun t => shortBase env t == defKey).length + 1 +
+      kids.countP (isDelayNode env) = kids.countP isTagNode := by
+  intro ch
+  obtain ⟨x, hx, hxs, hxd, hxk⟩ := defItem_node (env := env) (kids := kids) (dt := dt) (dspan := dspan) (by simp [hitems])
+  have hy : RNode.tag onset ∈ kids := mem_directTags.mp honset
+  have hnd := nodup_of_nodup_map startOf hN
+  have uniq : ∀ c ∈ kids, ∀ z ∈ kids, nodeSpan c = nodeSpan z → c = z :=
+    fun c hc z hz h => eq_of_nodup_map startOf kids hN c hc z hz (by simp [startOf, h])
+  have hxy : x ≠ RNode.tag onset := by
+    intro h
+    rcases hxk with ⟨h1, h2⟩ | h1
+    · rw [h] at h1
+      simp only [RNode.tag.injEq] at h1
+      rw [← h1, anchor_not_def ha] at h2
+      cases h2
+    · rw [h] at h1; simp [isTagNode] at h1
+  let P1 : RNode → Bool := fun c => nodeSpan c == dspan
+  let P2 : RNode → Bool := fun c => nodeSpan c == onset.span
+  let Q : RNode → Bool := fun c => (nodeSpan c != dspan && nodeSpan c != onset.span) && !isDelayNode env c
+  have hB : ∀ c : RNode, (match c with | .tag t => shortBase env t != delayKey | .group _ _ => true) = !isDelayNode env c := by
+    intro c; cases c <;> simp [isDelayNode, bne]
+  have hch : ch = kids.filter Q := by
+    simp only [ch, List.filter_filter, Q]
+    congr 1
+    funext c
+    rw [hB c, Bool.and_comm]
+  have hP1 : ∀ c ∈ kids, P1 c = true → c = x := fun c hc h => uniq c hc x hx (by simpa [P1, hxs] using h)
+  have hP2 : ∀ c ∈ kids, P2 c = true → c = .tag onset := fun c hc h => uniq c hc _ hy (by simpa [P2, nodeSpan] using h)
+  have hyd : isDelayNode env (.tag onset) = false := by simpa [isDelayNode] using anchor_not_delay ha
+  have hclass : ∀ c ∈ kids, (Q c).toNat + (P1 c).toNat + (P2 c).toNat + (isDelayNode env c).toNat = 1 := by
+    intro c hc
+    by_cases h1 : P1 c = true
+    · have := hP1 c hc h1
+      subst this
+      have h2 : P2 c = false := by
+        cases h : P2 c with
+        | false => rfl
+        | true => exact absurd (hP2 c hc h) hxy
+      have hq : Q c = false := by simp only [Q, P1] at h1 ⊢; simp [bne, h1]
+      simp [h1, h2, hq, hxd]
+    · have h1' : P1 c = false := by simpa using h1
+      by_cases h2 : P2 c = true
+      · have := hP2 c hc h2
+        subst this
+        have hq : Q (.tag onset) = false := by simp only [Q, P2] at h2 ⊢; simp [bne, h2]
+        simp [h1', h2, hq, hyd]
+      · have h2' : P2 c = false := by simpa using h2
+        have hq : Q c = !isDelayNode env c := by
+          simp only [Q, P1, P2] at h1' h2' ⊢
+          simp [bne, h1', h2']
+        cases hd : isDelayNode env c <;> simp [h1', h2', hq, hd]
+  have c1 : kids.countP P1 = 1 := countP_eq_one_of_unique P1 kids x hnd hx (by simp [P1, hxs]) hP1
+  have c2 : kids.countP P2 = 1 := countP_eq_one_of_unique P2 kids _ hnd hy (by simp [P2, nodeSpan]) hP2
+  have hlen := length_four Q P1 P2 (isDelayNode env) kids hclass
+  refine ⟨by rw [hch, ← List.countP_eq_length_filter]; omega, ?_⟩
+  -- the same among the tags
+  have hsub : ∀ c ∈ kids.filter isTagNode, c ∈ kids := fun c hc => (List.mem_filter.mp hc).1
+  have hlenT := length_four Q P1 P2 (isDelayNode env) (kids.filter isTagNode) (fun c hc => hclass c (hsub c hc))
+  have hdel : (kids.filter isTagNode).countP (isDelayNode env) = kids.countP (isDelayNode env) := by
+    rw [List.countP_filter]
+    congr 1
+    funext c
+    cases c <;> simp [isDelayNode, isTagNode]
+  have c2T : (kids.filter isTagNode).countP P2 = 1 :=
+    countP_eq_one_of_unique P2 _ (.tag onset) (hnd.sublist List.filter_sublist)
+      (List.mem_filter.mpr ⟨hy, rfl⟩) (by simp [P2, nodeSpan]) (fun c hc => hP2 c (hsub c hc))
+  have hq : ch.countP isTagNode = (kids.filter isTagNode).countP Q := by
+    rw [hch, List.countP_filter, List.countP_filter]
+    congr 1
+    funext c
+    exact Bool.and_comm _ _
+  have c1T : (kids.filter isTagNode).countP P1 = ((directTags kids).filter fun t => shortBase env t == defKey).length := by
+    have hle : ((directTags kids).filter fun t => shortBase env t == defKey).length ≤ 1 := by
+      have : ∀ t ∈ (directTags kids).filter (fun t => shortBase env t == defKey), t = dt := by
+        intro t ht
+        obtain ⟨h1, h2⟩ := List.mem_filter.mp ht
+        have := defTag_item (env := env) h1 h2
+        rw [hitems] at this
+        simpa using (Prod.mk.inj (List.mem_singleton.mp this)).1
+      -- all members equal and the list duplicate-free would do; count through the nodes instead
+      have hinj := directTags_filter_nodes (fun t => shortBase env t == defKey) kids
+      have hnd2 : (kids.filter fun c => match c with | .tag t => shortBase env t == defKey | .group _ _ => false).Nodup :=
+        hnd.sublist List.filter_sublist
+      rw [← hinj] at hnd2
+      have hnd3 := nodup_of_nodup_map _ hnd2
+      match hl : (directTags kids).filter (fun t => shortBase env t == defKey), this, hnd3 with
+      | [], _, _ => simp
+      | [_], _, _ => simp
+      | a :: b :: r, hall, hn =>
+        have ea := hall a (by simp)
+        have eb := hall b (by simp)
+        rw [ea, eb] at hn
+        simp at hn
+    rcases hxk with ⟨h1, h2⟩ | h1
+    · -- the Def is a tag
+      have hm : dt ∈ (directTags kids).filter fun t => shortBase env t == defKey :=
+        List.mem_filter.mpr ⟨mem_directTags.mpr (h1 ▸ hx), h2⟩
+      have hpos := List.length_pos_of_mem hm
+      have : (kids.filter isTagNode).countP P1 = 1 :=
+        countP_eq_one_of_unique P1 _ x (hnd.sublist List.filter_sublist)
+          (List.mem_filter.mpr ⟨hx, by rw [h1]; rfl⟩) (by simp [P1, hxs]) (fun c hc => hP1 c (hsub c hc))
+      omega
+    · -- the Def stands in a group: no tag of the group has its span, and no Def tag exists
+      have z1 : (kids.filter isTagNode).countP P1 = 0 := by
+        rw [List.countP_eq_zero]
+        intro c hc hp
+        have := hP1 c (hsub c hc) (by simpa using hp)
+        rw [this] at hc
+        rw [(List.mem_filter.mp hc).2] at h1
+        cases h1
+      have z2 : ((directTags kids).filter fun t => shortBase env t == defKey).length = 0 := by
+        rw [List.length_eq_zero_iff, List.filter_eq_nil_iff]
+        intro t ht hd
+        have := defTag_item (env := env) ht (by simpa using hd)
+        rw [hitems] at this
+        have he := Prod.mk.inj (List.mem_singleton.mp this)
+        have : RNode.tag t = x := uniq _ (mem_directTags.mp ht) x hx (by rw [hxs]; exact he.2)
+        rw [← this] at h1
+        simp [isTagNode] at h1
+      omega
+  rw [← List.countP_eq_length_filter] at hlenT
+  omega
+
+end onset2
+
+section onset3
+variable {env : Env}
+
+/-- the count of the rule's issues for one top-level group, from numbers that do not depend on the order of its
+members: anchors (Onset/Offset/Inset tags), Offset anchors, Def items, members, Delay tags, tags, Def tags -/
+def onsF (a aOff d L Dl Tg dT : Nat) : Nat :=
+  if a = 0 then 0 else if d ≠ 1 then 1 else if 2 ≤ a then 1 else
+    if L - 2 - Dl > (if aOff = 1 then 0 else 1) then 1 else Tg - dT - 1 - Dl
+
+def onsNums (env : Env) (kids : List RNode) : Nat × Nat × Nat × Nat × Nat × Nat × Nat :=
+  (((directTags kids).filter (anchorP env)).length,
+   ((directTags kids).filter fun t => anchorP env t && shortBase env t == offsetKey).length,
+   (defItemsOf env kids).length, kids.length, kids.countP (isDelayNode env), kids.countP isTagNode,
+   ((directTags kids).filter fun t => shortBase env t == defKey).length)
+
+def onsNode (env : Env) : RNode → List Issue
+  | .tag _ => []
+  | .group _ kids =>
+    match (directTags kids).find? (anchorP env) with
+    | some t => onsetGroupIssues env t kids
+    | none => []
+
+theorem onsetIssues_eq (env : Env) (root : List RNode) : onsetIssues env root = root.flatMap (onsNode env) := by
+  unfold onsetIssues topLevelAnchored
+  induction root with
+  | nil => rfl
+  | cons k ks ih =>
+    cases k with
+    | tag t => simpa [directGroups, onsNode] using ih
+    | group s kids =>
+      have e : anchorP env = fun t => (temporalKeys.map fold).contains (fold (shortBase env t)) := rfl
+      simp only [directGroups, List.filterMap_cons, List.flatMap_cons, onsNode]
+      rw [e]
+      cases hf : (directTags kids).find? fun t => (temporalKeys.map fold).contains (fold (shortBase env t)) with
+      | none => simpa using ih
+      | some t => simp only [Option.map_some, List.flatMap_cons, ih]
+
+theorem find?_eq_head_filter {α : Type} (p : α → Bool) : ∀ (l : List α), l.find? p = (l.filter p).head?
+  | [] => rfl
+  | a :: l => by
+    by_cases h : p a = true
+    · rw [List.find?_cons, List.filter_cons]; simp only [h, ↓reduceIte]; rfl
+    · have h' : p a = false := by simpa using h
+      rw [List.find?_cons, List.filter_cons]; simp only [h', Bool.false_eq_true, ↓reduceIte]
+      exact find?_eq_head_filter p l
+
+theorem countP_tags (kids : List RNode) : kids.countP isTagNode = (directTags kids).length := by
+  induction kids with
+  | nil => rfl
+  | cons k ks ih => cases k <;> simp [directTags, isTagNode, List.countP_cons, ih]
+
+theorem countP_delay (env : Env) (kids : List RNode) :
+    kids.countP (isDelayNode env) = ((directTags kids).filter fun t => shortBase env t == delayKey).length := by
+  induction kids with
+  | nil => rfl
+  | cons k ks ih =>
+    cases k with
+    | tag t => by_cases h : (shortBase env t == delayKey) = true <;> simp [directTags, isDelayNode, List.countP_cons, List.filter_cons, h, ih]
+    | group s g => simpa [directTags, isDelayNode, List.countP_cons] using ih
+
+theorem three_filters_le {α : Type} (p q r : α → Bool) (l : List α)
+    (h : ∀ x ∈ l, ¬ (p x = true ∧ q x = true) ∧ ¬ (p x = true ∧ r x = true) ∧ ¬ (q x = true ∧ r x = true)) :
+    (l.filter p).length + (l.filter q).length + (l.filter r).length ≤ l.length := by
+  induction l with
+  | nil => simp
+  | cons a l ih =>
+    have := ih (fun x hx => h x (by simp [hx]))
+    have ha := h a (by simp)
+    simp only [List.filter_cons, List.length_cons]
+    cases hp : p a <;> cases hq : q a <;> cases hr : r a <;> simp_all <;> omega
+
+theorem head_tag_count : ∀ (ch : List RNode), ch.length ≤ 1 →
+    (match ch with | .tag _ :: _ => 1 | _ => 0) = ch.countP isTagNode
+  | [], _ => rfl
+  | [.tag _], _ => rfl
+  | [.group _ _], _ => rfl
+  | _ :: _ :: _, h => by simp at h
+
+theorem onsetCount_eq {kids : List RNode} (hN : (kids.map startOf).Nodup) {onset : RTag}
+    (hfind : (directTags kids).find? (anchorP env) = some onset) :
+    onsetCount env onset kids =
+      (let n := onsNums env kids; onsF n.1 n.2.1 n.2.2.1 n.2.2.2.1 n.2.2.2.2.1 n.2.2.2.2.2.1 n.2.2.2.2.2.2) := by
+  have honset : onset ∈ directTags kids := List.mem_of_find?_eq_some hfind
+  have ha : anchorP env onset = true := by simpa using List.find?_some hfind
+  have hA : ∃ rest, (directTags kids).filter (anchorP env) = onset :: rest := by
+    have : ((directTags kids).filter (anchorP env)).head? = some onset := by
+      rw [← find?_eq_head_filter]; exact hfind
+    cases hl : (directTags kids).filter (anchorP env) with
+    | nil => rw [hl] at this; simp at this
+    | cons b r => rw [hl] at this; simp at this; exact ⟨r, by rw [this]⟩
+  obtain ⟨rest, hA⟩ := hA
+  simp only [onsNums, onsF, hA, List.length_cons]
+  have ha0 : ¬ (rest.length + 1 = 0) := by omega
+  simp only [ha0, ↓reduceIte]
+  unfold onsetCount
+  cases hd : defItemsOf env kids with
+  | nil => simp
+  | cons it r2 =>
+    obtain ⟨dt, dspan⟩ := it
+    cases r2 with
+    | cons _ _ => simp
+    | nil =>
+      simp only [List.length_singleton, ne_eq, not_true_eq_false, ↓reduceIte]
+      obtain ⟨c1, c2⟩ := children_counts (env := env) hN hd honset ha
+      generalize hch : (List.filter (fun c => match c with
+        | RNode.tag t => shortBase env t != delayKey
+        | RNode.group _ _ => true) (List.filter (fun c => nodeSpan c != dspan && nodeSpan c != onset.span) kids)) = ch at c1 c2 ⊢
+      have hTm : ch.countP isTagNode ≤ ch.length := List.countP_le_length
+      by_cases h2 : 2 ≤ rest.length + 1
+      · -- several anchors: the others are tag members, so exactly one issue either way
+        simp only [h2, ↓reduceIte]
+        have hge : ((directTags kids).filter (anchorP env)).length +
+            ((directTags kids).filter fun t => shortBase env t == defKey).length +
+            ((directTags kids).filter fun t => shortBase env t == delayKey).length ≤ (directTags kids).length := by
+          apply three_filters_le
+          intro t _
+          refine ⟨?_, ?_, ?_⟩
+          · rintro ⟨h1, h2⟩; rw [anchor_not_def h1] at h2; cases h2
+          · rintro ⟨h1, h2⟩; rw [anchor_not_delay h1] at h2; cases h2
+          · rintro ⟨h1, h2⟩
+            rw [beq_iff_eq] at h1 h2
+            rw [h1] at h2
+            exact absurd h2 (by decide)
+        rw [hA, List.length_cons, ← countP_tags, ← countP_delay] at hge
+        have hT1 : 1 ≤ ch.countP isTagNode := by omega
+        generalize hlim : (if (shortBase env onset == offsetKey) = true then 0 else 1) = lim
+        have hlim1 : lim ≤ 1 := by rw [← hlim]; split <;> omega
+        by_cases hgt : ch.length > lim
+        · simp only [hgt, ↓reduceIte]
+        · simp only [hgt, ↓reduceIte]
+          rw [head_tag_count ch (by omega)]
+          omega
+      · have h1 : rest = [] := by
+          cases rest with
+          | nil => rfl
+          | cons _ _ => simp at h2
+        subst h1
+        simp only [h2, ↓reduceIte]
+        have hoff : ((directTags kids).filter fun t => anchorP env t && shortBase env t == offsetKey).length =
+            if (shortBase env onset == offsetKey) = true then 1 else 0 := by
+          have : ((directTags kids).filter fun t => anchorP env t && shortBase env t == offsetKey) =
+              ((directTags kids).filter (anchorP env)).filter (fun t => shortBase env t == offsetKey) := by
+            rw [List.filter_filter]; congr 1; funext t; exact Bool.and_comm _ _
+          rw [this, hA]
+          by_cases ho : (shortBase env onset == offsetKey) = true <;> simp [List.filter_cons, ho]
+        rw [hoff]
+        have hlim : (if (if (shortBase env onset == offsetKey) = true then 1 else 0) = 1 then 0 else 1) =
+            (if (shortBase env onset == offsetKey) = true then 0 else 1) := by
+          split <;> simp
+        rw [hlim]
+        have hm : kids.length - 2 - kids.countP (isDelayNode env) = ch.length := by omega
+        rw [hm]
+        generalize hlim' : (if (shortBase env onset == offsetKey) = true then 0 else 1) = lim
+        have hlim1 : lim ≤ 1 := by rw [← hlim']; split <;> omega
+        by_cases hgt : ch.length > lim
+        · simp only [hgt, ↓reduceIte]
+        · simp only [hgt, ↓reduceIte]
+          rw [head_tag_count ch (by omega)]
+          omega
+
+end onset3
+
+section onset4
+variable {env : Env} {R : RTag → RTag → Prop}
+
+theorem onsNode_codes {s : Nat × Nat} {kids : List RNode} (hN : (kids.map startOf).Nodup)
+    (hdef : ∀ it ∈ defItemsOf env kids, onsetDefIssues env it.1 = []) :
+    errCodes (onsNode env (.group s kids)) =
+      List.replicate (let n := onsNums env kids; onsF n.1 n.2.1 n.2.2.1 n.2.2.2.1 n.2.2.2.2.1 n.2.2.2.2.2.1 n.2.2.2.2.2.2) tcode := by
+  simp only [onsNode]
+  cases hf : (directTags kids).find? (anchorP env) with
+  | none =>
+    have : (directTags kids).filter (anchorP env) = [] := by
+      rw [List.filter_eq_nil_iff]
+      intro t ht
+      have := List.find?_eq_none.mp hf t ht
+      simpa using this
+    simp [onsNums, onsF, this, errCodes]
+    rfl
+  | some onset =>
+    simp only
+    rw [onsetGroup_codes env onset kids hdef, onsetCount_eq hN hf]
+
+theorem onsNums_sim (hR : ∀ t t', R t t' → Core t t') {kids kids' : List RNode} (h : ForestSim R kids kids') :
+    onsNums env kids = onsNums env kids' := by
+  have hd : (defItemsOf env kids).length = (defItemsOf env kids').length := by
+    rw [defItemsOf_eq, defItemsOf_eq]
+    have := (h.flatMap_perm (fun k => (defItemsNode env k).map fun _ => ()) (fun k => (defItemsNode env k).map fun _ => ())
+      (by
+        intro k _ k' _ hk
+        cases k with
+        | tag t =>
+          cases k' with
+          | group _ _ => simp [NodeSim] at hk
+          | tag t' =>
+            have hc := hR t t' (by simpa [NodeSim] using hk)
+            simp only [defItemsNode, hc.shortBase]
+            split <;> exact List.Perm.refl _
+        | group s ks =>
+          cases k' with
+          | tag _ => simp [NodeSim] at hk
+          | group s' ks' =>
+            have hf : ForestSim R ks ks' := by simpa [NodeSim, ForestSim] using hk
+            have := hf.directTags_count (fun t => shortBase env t == defExpandKey) (fun t => shortBase env t == defExpandKey)
+              (fun t t' htt => by rw [(hR t t' htt).shortBase])
+            simp only [defItemsNode, List.map_map]
+            apply List.Perm.of_eq
+            apply List.ext_getElem <;> simp [this])).length_eq
+    simpa [List.length_flatMap] using this
+  unfold onsNums
+  rw [hd, h.length_eq, countP_delay, countP_delay, countP_tags, countP_tags, h.directTags_length,
+    h.directTags_count (anchorP env) (anchorP env) (fun t t' htt => by simp [anchorP, (hR t t' htt).shortBase]),
+    h.directTags_count (fun t => anchorP env t && shortBase env t == offsetKey)
+      (fun t => anchorP env t && shortBase env t == offsetKey)
+      (fun t t' htt => by simp [anchorP, (hR t t' htt).shortBase]),
+    h.directTags_count (fun t => shortBase env t == delayKey) (fun t => shortBase env t == delayKey)
+      (fun t t' htt => by rw [(hR t t' htt).shortBase]),
+    h.directTags_count (fun t => shortBase env t == defKey) (fun t => shortBase env t == defKey)
+      (fun t t' htt => by rw [(hR t t' htt).shortBase])]
+
+/-- the Def and Def-expand tags the rule looks at are declared with the right arity (when they are not, the
+definition check of the earlier phase has already reported an error and the rule is not reached) -/
+def DefItemsOK (env : Env) (root : List RNode) : Prop :=
+  ∀ s kids, RNode.group s kids ∈ root → ∀ it ∈ defItemsOf env kids, onsetDefIssues env it.1 = []
+
+theorem startOf_sublist : ∀ (kids : List RNode), (kids.map startOf).Sublist (rstartsList kids)
+  | [] => List.Sublist.slnil
+  | c :: cs => by
+    have ih := startOf_sublist cs
+    cases c with
+    | tag t =>
+      simp only [List.map_cons, rstartsList, rstartsNode, startOf, nodeSpan, List.cons_append, List.nil_append]
+      exact List.Sublist.cons_cons _ ih
+    | group s ks =>
+      simp only [List.map_cons, rstartsList, rstartsNode, startOf, nodeSpan, List.cons_append]
+      exact List.Sublist.cons_cons _ (ih.trans (List.sublist_append_right (rstartsList ks) (rstartsList cs)))
+
+theorem siblings_nodup {root : List RNode} (hn : (rstartsList root).Nodup) {s : Nat × Nat} {kids : List RNode}
+    (hk : RNode.group s kids ∈ root) : (kids.map startOf).Nodup := by
+  obtain ⟨pre, post, rfl⟩ := List.append_of_mem hk
+  rw [rstartsList_eq, List.flatMap_append, List.flatMap_cons] at hn
+  have h1 : (rstartsNode (.group s kids)).Nodup :=
+    hn.sublist ((List.sublist_append_left _ _).trans (List.sublist_append_right _ _))
+  simp only [rstartsNode] at h1
+  exact ((List.nodup_cons.mp h1).2).sublist (startOf_sublist kids)
+
+/-- **the Onset/Offset/Inset rule does not depend on the order or the spelling of the members** -/
+theorem onsetIssues_sim (hR : ∀ t t', R t t' → Core t t') {l l' : List RNode} (h : ForestSim R l l')
+    (hn : (rstartsList l).Nodup) (hn' : (rstartsList l').Nodup) (hd : DefItemsOK env l) (hd' : DefItemsOK env l') :
+    (errCodes (onsetIssues env l)).Perm (errCodes (onsetIssues env l')) := by
+  rw [onsetIssues_eq, onsetIssues_eq, errCodes_flatMap, errCodes_flatMap]
+  apply h.flatMap_perm
+  intro k hk k' hk' hkk
+  cases k with
+  | tag t => cases k' <;> simp_all [NodeSim, onsNode, errCodes, errors, codes]
+  | group s ks =>
+    cases k' with
+    | tag _ => simp [NodeSim] at hkk
+    | group s' ks' =>
+      have hf : ForestSim R ks ks' := by simpa [NodeSim, ForestSim] using hkk
+      rw [onsNode_codes (siblings_nodup hn hk) (hd s ks hk), onsNode_codes (siblings_nodup hn' hk') (hd' s' ks' hk'),
+        onsNums_sim hR hf]
+
+end onset4
+
+section crossphase
+variable {env : Env}
+
+theorem noError_mem {l : List Issue} (h : hasError l = false) {i : Issue} (hi : i ∈ l) : i.isError = false := by
+  simp only [hasError, List.any_eq_false] at h
+  simpa using h i hi
+
+/-- a Def (or Def-expand) tag whose content check raised no error is declared with the right arity -/
+theorem onsetDef_nil_of_content (dt : RTag) (grp : Option (List RNode))
+    (h : ∀ i ∈ defContentIssues env dt grp, i.isError = false) : onsetDefIssues env dt = [] := by
+  unfold defContentIssues defExpansion at h
+  unfold onsetDefIssues
+  cases hl : defLookup env (defLabel dt) with
+  | none =>
+    rw [hl] at h
+    have := h _ (List.mem_singleton.mpr rfl)
+    cases grp <;> simp [Issue.isError, tagIssue, Issue.plain, Kind.sev, sevWarning, sev_HED_DEF_UNMATCHED,
+      sev_HED_DEF_EXPAND_UNMATCHED] at this
+  | some e =>
+    rw [hl] at h
+    simp only at h ⊢
+    by_cases hm : (e.takes == (defValue dt).isEmpty) = true
+    · simp only [hm, ↓reduceIte] at h
+      have := h _ (List.mem_singleton.mpr rfl)
+      cases grp <;> cases ht : e.takes <;> simp [ht, Issue.isError, tagIssue, Issue.plain, Kind.sev, sevWarning,
+        sev_HED_DEF_VALUE_MISSING, sev_HED_DEF_VALUE_EXTRA, sev_HED_DEF_EXPAND_VALUE_MISSING,
+        sev_HED_DEF_EXPAND_VALUE_EXTRA] at this
+    · have : (e.takes != !(defValue dt).isEmpty) = false := by
+        cases ht : e.takes <;> cases hv : (defValue dt).isEmpty <;> simp_all
+      simp [this]
+
+/-- **Cross-phase.** When the definition check of phase 3 reports no error, every Def item the temporal rule looks
+at passes the rule's own look-up. -/
+theorem defItemsOK_of_defPhase (len : Nat) (root : List RNode) (h : hasError (defPhase env len root) = false) :
+    DefItemsOK env root := by
+  intro s kids hk it hit
+  obtain ⟨dt, sp⟩ := it
+  have hg : (⟨s, kids, true, true⟩ : GV) ∈ allGroups len root := by
+    simp only [allGroups, List.mem_cons, groupsList_eq, List.mem_flatMap]
+    exact Or.inr ⟨_, hk, by simp [groupsNode]⟩
+  have hsub : ∀ i ∈ defIssuesOf env kids, i.isError = false := by
+    intro i hi
+    exact noError_mem h (List.mem_flatMap.mpr ⟨_, hg, hi⟩)
+  rw [defItemsOf_eq] at hit
+  obtain ⟨x, hx, hm⟩ := List.mem_flatMap.mp hit
+  cases x with
+  | tag t =>
+    simp only [defItemsNode] at hm
+    split at hm
+    · rename_i hd
+      simp only [List.mem_singleton, Prod.mk.injEq] at hm
+      obtain ⟨rfl, _⟩ := hm
+      exact onsetDef_nil_of_content dt none
+        (fun i hi => hsub i (C01.defIssuesOf_mem env dt (by simpa using hd) i hi kids hx))
+    · simp at hm
+  | group s2 ks =>
+    simp only [defItemsNode, List.mem_map, List.mem_filter] at hm
+    obtain ⟨t, ⟨ht, hd⟩, he⟩ := hm
+    simp only [Prod.mk.injEq] at he
+    obtain ⟨rfl, _⟩ := he
+    exact onsetDef_nil_of_content t (some ks)
+      (fun i hi => hsub i (C01.defIssuesOf_mem_expand env t s2 ks ht (by simpa using hd) i hi kids hx))
+
+end crossphase
+
+/-- when the basic checks raise no error and the text is not "n/a", the definition check of phase 3 raised none -/
+theorem defPhase_noError {env : Env} {ph : Bool} {text : Str} {p : Parsed}
+    (h : hasError (basicP env ph text p) = false) (hna : isNA env p.root0 = false) :
+    hasError (defPhase env text.length p.root1) = false := by
+  unfold basicP at h
+  simp only [hna, Bool.false_eq_true, ↓reduceIte] at h
+  by_cases h1 : hasError (stringIssues env ph text p) = true
+  · simp [h1] at h
+  · simp only [h1, Bool.false_eq_true, ↓reduceIte] at h
+    by_cases h2 : hasError (stringIssues env ph text p ++ tagIssues env ph p) = true
+    · simp [h2] at h
+    · simp only [h2, Bool.false_eq_true, ↓reduceIte] at h
+      rw [C01.hasError_append, Bool.or_eq_false_iff] at h
+      have := h.2
+      unfold semIssues at this
+      rw [C01.hasError_append, Bool.or_eq_false_iff] at this
+      exact this.2
+
+theorem defItemsOK_final {env : Env} {ph : Bool} {text : Str} {p : Parsed}
+    (h : hasError (basicP env ph text p) = false) : DefItemsOK env (p.final env) := by
+  unfold Parsed.final
+  by_cases hna : isNA env p.root0 = true
+  · simp only [hna, ↓reduceIte]
+    obtain ⟨t, ht, _⟩ := (strList_na env p.root0).mp (by simpa [isNA] using hna)
+    intro s kids hk
+    rw [ht] at hk
+    simp at hk
+  · have hna' : isNA env p.root0 = false := by simpa using hna
+    simp only [hna', Bool.false_eq_true, ↓reduceIte]
+    exact defItemsOK_of_defPhase _ _ (defPhase_noError h hna')
+
+section whole
+open HedVerif.Dup (Adm CleanStr)
+variable {R : RTag → RTag → Prop} {env : Env}
+
 /-- **Whole validator, tree level.** Two parsed annotations whose first trees are related (same shape, related
-tags, members of every group permuted) and whose raw-text rules agree get the same multiset of error codes. -/
+tags, members of every group permuted, spans free but distinct) and whose raw-text rules agree get the same
+multiset of error codes — for both values of `allow_placeholders`, every rule included. -/
 theorem validateP_sim (hR : TagRel env R) (hs : env.var.sortCanonical = true) (he : env.var.eqFold = true)
-    {P : Dup.Tag → Prop} (hP : Adm P) (hD : DefsOK env P) (text text' : Str) (p p' : Parsed)
+    {P : Dup.Tag → Prop} (hP : Adm P) (hD : DefsOK env P) (ph : Bool) (text text' : Str) (p p' : Parsed)
     (hw : ParsedWF env p) (hw' : ParsedWF env p') (h0 : ForestSim R p.root0 p'.root0)
-    (hText : (errCodes (textIssues env text)).Perm (errCodes (textIssues env text')))
+    (hText : (errCodes (textIssues env ph text)).Perm (errCodes (textIssues env ph text')))
     (hP0 : ∀ x ∈ tagsList p.root0, P (toDupTag env x)) (hP0' : ∀ x ∈ tagsList p'.root0, P (toDupTag env x))
     (hP1 : ∀ x ∈ tagsList p.root1, P (toDupTag env x)) (hP1' : ∀ x ∈ tagsList p'.root1, P (toDupTag env x))
-    (honset : (errCodes (onsetIssues env (p.final env))).Perm (errCodes (onsetIssues env (p'.final env)))) :
-    (errCodes (validateP env true text p)).Perm (errCodes (validateP env true text' p')) := by
+    (hn : (rstartsList p.root0).Nodup) (hn' : (rstartsList p'.root0).Nodup) :
+    (errCodes (validateP env ph text p)).Perm (errCodes (validateP env ph text' p')) := by
   have h1 : ForestSim R p.root1 p'.root1 := by rw [hw.1, hw'.1]; exact h0.recanon hR.recanon
+  have hn1 : (rstartsList p.root1).Nodup := by rw [hw.1, rstarts_recanon]; exact hn
+  have hn1' : (rstartsList p'.root1).Nodup := by rw [hw'.1, rstarts_recanon]; exact hn'
   have hna := isNA_sim (env := env) hR.core h0
-  apply validateP_congr env true text text' p p'
+  apply validateP_congr env ph text text' p p'
   · -- phase 1
     unfold stringIssues stringPhase
     have := hText
@@ -3195,21 +4045,24 @@ theorem validateP_sim (hR : TagRel env R) (hs : env.var.sortCanonical = true) (h
     simp only [errCodes_append]
     refine List.Perm.append ?_ ?_
     · rw [errCodes_flatMap, errCodes_flatMap]
-      exact h0.tags_flatMap _ _ (fun t t' htt => List.Perm.of_eq (hR.chars t t' htt))
+      exact h0.tags_flatMap _ _ (fun t t' htt => List.Perm.of_eq (hR.chars t t' htt ph))
     · rw [hw.2, hw'.2, C01.recanonList_issues, C01.recanonList_issues, errCodes_flatMap, errCodes_flatMap]
       exact h0.tags_flatMap _ _ (fun t t' htt => List.Perm.of_eq (hR.lookup t t' htt))
   · -- phase 3
     unfold semIssues
     simp only [errCodes_append]
-    exact (individualPhase_sim hR.core h1 _ _).append (defPhase_sim hR.core hs he hP hD h1 _ _ hP1 hP1')
+    exact (individualPhase_sim hR.core ph h1 _ _ hn1 hn1').append (defPhase_sim hR.core hs he hP hD h1 _ _ hP1 hP1')
   · -- phase 4
-    intro _
+    intro hb hb'
     unfold fullIssues
     have hfin : ForestSim R (p.final env) (p'.final env) := by
       unfold Parsed.final; rw [← hna]; split
       · exact h0
       · exact h1
-    refine fullPhase_sim hR.core hs he hP hfin _ _ ?_ ?_ honset
+    have hnf : (rstartsList (p.final env)).Nodup := by unfold Parsed.final; split <;> assumption
+    have hnf' : (rstartsList (p'.final env)).Nodup := by unfold Parsed.final; split <;> assumption
+    refine fullPhase_sim hR.core hs he hP hfin _ _ ?_ ?_
+      (onsetIssues_sim hR.core hfin hnf hnf' (defItemsOK_final hb) (defItemsOK_final hb'))
     · unfold Parsed.final; split
       · exact hP0
       · exact hP1
@@ -3217,7 +4070,8 @@ theorem validateP_sim (hR : TagRel env R) (hs : env.var.sortCanonical = true) (h
       · exact hP0'
       · exact hP1'
 
-end phases
+end whole
+
 
 /-! ### the relations: same tag (order, spacing), respelled tag (spelling) -/
 
@@ -3247,7 +4101,7 @@ theorem canon_same (env : Env) {t t' : RTag} (h : SameTag t t') : SameTag (canon
 theorem sameTag_rel (env : Env) : TagRel env SameTag where
   core := fun _ _ h => h.core
   slash := fun t t' h => errCodes_of_sigs (by simp [slashIssues, h.1])
-  chars := fun t t' h => errCodes_of_sigs (by
+  chars := fun t t' h ph => errCodes_of_sigs (by
     unfold tagCharIssues
     simp only [h.2.1, h.orgBase, sigs_append, sigs_ite, sigs_cons, sigs_nil, sig_tagIssue,
       invalidCharsFrom_sigs env.cd _ t t' none (orgBase t) 0 0])
@@ -3357,8 +4211,8 @@ end textsim
 section blanktext
 variable (env : Env)
 
-theorem badChar_blank : badChar env true ' ' = false := by
-  simp [badChar, invalidStringCharsPlaceholders, isPrintable, isAscii]
+theorem badChar_blank (ph : Bool) : badChar env ph ' ' = false := by
+  cases ph <;> simp [badChar, invalidStringCharsPlaceholders, invalidStringChars, isPrintable, isAscii]
 
 theorem charIssuesFrom_codes (ph : Bool) : ∀ (s : Str) (i : Nat),
     errCodes (charIssuesFrom env ph i s) = s.flatMap fun c => if badChar env ph c then errCodes [charIssue 0 c] else []
@@ -3370,8 +4224,8 @@ theorem charIssuesFrom_codes (ph : Bool) : ∀ (s : Str) (i : Nat),
     · exact errCodes_of_sigs (by simp [charIssue] <;> (split <;> rfl))
     · rfl
 
-theorem charIssues_blank (a b : Str) :
-    errCodes (charIssues env true (a ++ ' ' :: b)) = errCodes (charIssues env true (a ++ b)) := by
+theorem charIssues_blank (ph : Bool) (a b : Str) :
+    errCodes (charIssues env ph (a ++ ' ' :: b)) = errCodes (charIssues env ph (a ++ b)) := by
   simp [charIssues, charIssuesFrom_codes, List.flatMap_append, List.flatMap_cons, badChar_blank]
 
 theorem parens_blank_insert (a b : Str) : parens (a ++ ' ' :: b) = parens (a ++ b) := by
@@ -3472,8 +4326,8 @@ theorem delimIssues_blank (cd : CharData) (a b : Str) :
   split <;> simp [emptyAt, sig]
 
 /-- **raw-text rules and blanks**: inserting a blank anywhere changes none of their codes -/
-theorem textIssues_blank (a b : Str) :
-    errCodes (textIssues env (a ++ ' ' :: b)) = errCodes (textIssues env (a ++ b)) := by
+theorem textIssues_blank (ph : Bool) (a b : Str) :
+    errCodes (textIssues env ph (a ++ ' ' :: b)) = errCodes (textIssues env ph (a ++ b)) := by
   simp only [textIssues, errCodes_append, charIssues_blank, parenIssues_blank, delimIssues_blank]
 
 end blanktext
@@ -3528,22 +4382,22 @@ theorem spacing_invariant_text {s s' : Str} (h : Blank s s') :
   have he := evs_blank h
   exact ⟨by rw [tagTexts_eq_evs, tagTexts_eq_evs, he], by rw [construct_ev, construct_ev, he]⟩
 
-theorem textIssues_blankStep (env : Env) {s s' : Str} (h : BlankStep s s') :
-    errCodes (textIssues env s) = errCodes (textIssues env s') := by
+theorem textIssues_blankStep (env : Env) (ph : Bool) {s s' : Str} (h : BlankStep s s') :
+    errCodes (textIssues env ph s) = errCodes (textIssues env ph s') := by
   cases h with
-  | start => exact (textIssues_blank env [] _).symm
-  | stop => simpa using (textIssues_blank env _ []).symm
+  | start => exact (textIssues_blank env ph [] _).symm
+  | stop => simpa using (textIssues_blank env ph _ []).symm
   | after a b d _ =>
-    have := textIssues_blank env (a ++ [d]) b
+    have := textIssues_blank env ph (a ++ [d]) b
     simpa using this.symm
-  | before a b d _ => exact (textIssues_blank env a (d :: b)).symm
+  | before a b d _ => exact (textIssues_blank env ph a (d :: b)).symm
 
-theorem textIssues_blankRel (env : Env) {s s' : Str} (h : Blank s s') :
-    errCodes (textIssues env s) = errCodes (textIssues env s') := by
+theorem textIssues_blankRel (env : Env) (ph : Bool) {s s' : Str} (h : Blank s s') :
+    errCodes (textIssues env ph s) = errCodes (textIssues env ph s') := by
   induction h with
   | refl => rfl
-  | ins h => exact textIssues_blankStep env h
-  | del h => exact (textIssues_blankStep env h).symm
+  | ins h => exact textIssues_blankStep env ph h
+  | del h => exact (textIssues_blankStep env ph h).symm
   | trans _ _ ih1 ih2 => exact ih1.trans ih2
 
 mutual
@@ -3560,6 +4414,172 @@ theorem aForestSim_refl (l : List ATree) : AForestSim Eq l l := ⟨l, aPointSim_
 theorem mkTagW_same (env : Env) (w : Str) (sp sp' : Nat × Nat) : SameTag (mkTagW env w sp) (mkTagW env w sp') :=
   canon_same env ⟨rfl, rfl, rfl, rfl⟩
 
+/-! ### every node of a parse tree starts at its own position -/
+
+mutual
+/-- start positions of a node and of everything below it -/
+def startsNode : Node → List Nat
+  | .tag a _ => [a]
+  | .group a _ kids => a :: startsList kids
+def startsList : List Node → List Nat
+  | [] => []
+  | n :: ns => startsNode n ++ startsList ns
+end
+
+theorem startsList_eq (l : List Node) : startsList l = l.flatMap startsNode := by
+  induction l with
+  | nil => rfl
+  | cons k ks ih => simp [startsList, ih]
+
+theorem startsList_reverse (l : List Node) : (startsList l.reverse).Perm (startsList l) := by
+  rw [startsList_eq, startsList_eq]
+  exact (List.reverse_perm l).flatMap_right _
+
+/-- starts held in the open frames -/
+def frameStarts (stack : List Frame) : List Nat := stack.flatMap fun f => f.start :: startsList f.kids
+
+def allStarts (top : List Node) (stack : List Frame) : List Nat := startsList top ++ frameStarts stack
+
+/-- one token: the starts grow by at most one position, inside the token -/
+theorem stepTok_starts (s : Str) (top top' : List Node) (stack stack' : List Frame) (t : Token)
+    (ht : t.start < t.stop) (hs : t.stop ≤ s.length) (h : stepTok s top stack t = .ok (top', stack')) :
+    (allStarts top' stack').Perm (allStarts top stack) ∨
+      ∃ x, t.start ≤ x ∧ x < t.stop ∧ (allStarts top' stack').Perm (x :: allStarts top stack) := by
+  unfold stepTok at h
+  by_cases htag : t.isTag = true
+  · simp only [htag, ↓reduceIte] at h
+    right
+    refine ⟨t.start, Nat.le_refl _, ht, ?_⟩
+    cases stack with
+    | nil =>
+      simp only [Except.ok.injEq, Prod.mk.injEq] at h
+      obtain ⟨rfl, rfl⟩ := h
+      simp [allStarts, startsList, startsNode, frameStarts]
+    | cons f fs =>
+      simp only [Except.ok.injEq, Prod.mk.injEq] at h
+      obtain ⟨rfl, rfl⟩ := h
+      simp only [allStarts, frameStarts, List.flatMap_cons, startsList, startsNode, List.cons_append, List.nil_append]
+      refine List.Perm.trans ?_ (List.perm_middle)
+      exact List.Perm.append_left _ (List.Perm.swap _ _ _)
+  · have htag' : t.isTag = false := by simpa using htag
+    simp only [htag', Bool.false_eq_true, ↓reduceIte] at h
+    have hne : slice s t.start t.stop ≠ [] := by
+      intro hh
+      have := congrArg List.length hh
+      rw [slice_length s _ _ hs] at this
+      simp at this; omega
+    obtain ⟨ch, hch, _⟩ := clsOf_of_first _ hne
+    have hdi : delimIndex (slice s t.start t.stop) < t.stop - t.start := by
+      have := (List.getElem?_eq_some_iff.mp hch).1
+      rwa [slice_length s _ _ hs] at this
+    have hch' : ((s.drop t.start).take (t.stop - t.start))[delimIndex ((s.drop t.start).take (t.stop - t.start))]? = some ch := hch
+    simp only [hch'] at h
+    by_cases h1 : ch = '('
+    · subst h1
+      simp only [beq_self_eq_true, ↓reduceIte, Except.ok.injEq, Prod.mk.injEq] at h
+      obtain ⟨rfl, rfl⟩ := h
+      right
+      refine ⟨t.start + delimIndex (slice s t.start t.stop), by omega, by omega, ?_⟩
+      simp only [allStarts, frameStarts, List.flatMap_cons, startsList, List.append_nil]
+      exact List.perm_middle
+    · have h1' : (ch == '(') = false := by simpa using h1
+      simp only [h1', Bool.false_eq_true, ↓reduceIte] at h
+      by_cases h2 : ch = ')'
+      · subst h2
+        simp only [beq_self_eq_true, ↓reduceIte] at h
+        left
+        cases stack with
+        | nil => simp at h
+        | cons f fs =>
+          cases fs with
+          | nil =>
+            simp only [Except.ok.injEq, Prod.mk.injEq] at h
+            obtain ⟨rfl, rfl⟩ := h
+            simp only [allStarts, frameStarts, List.flatMap_cons, List.flatMap_nil, startsList, startsNode,
+              List.append_nil]
+            refine List.Perm.trans ?_ List.perm_append_comm
+            simp only [List.cons_append]
+            exact List.Perm.cons _ (List.Perm.append_right _ (startsList_reverse _))
+          | cons f2 fs2 =>
+            simp only [Except.ok.injEq, Prod.mk.injEq] at h
+            obtain ⟨rfl, rfl⟩ := h
+            simp only [allStarts, frameStarts, List.flatMap_cons, startsList, startsNode, List.cons_append]
+            apply List.Perm.append_left
+            have hr := startsList_reverse f.kids
+            rw [List.perm_iff_count]
+            intro a
+            have := hr.count_eq a
+            simp only [List.count_append, List.count_cons, this]
+            omega
+      · have h2' : (ch == ')') = false := by simpa using h2
+        simp only [h2', Bool.false_eq_true, ↓reduceIte, Except.ok.injEq, Prod.mk.injEq] at h
+        obtain ⟨rfl, rfl⟩ := h
+        left; exact List.Perm.refl _
+
+
+theorem buildToks_starts (s : Str) : ∀ (toks : List Token) (p : Nat) (top : List Node) (stack : List Frame),
+    Tiles toks p s.length → (∀ x ∈ allStarts top stack, x < p) → (allStarts top stack).Nodup →
+    ∀ r, buildToks s top stack toks = .ok r → (startsList r).Nodup
+  | [], _, top, stack, _, _, hn, r, hr => by
+    cases stack with
+    | nil =>
+      simp only [buildToks, Except.ok.injEq] at hr
+      subst hr
+      have : (startsList top).Nodup := by simpa [allStarts, frameStarts] using hn
+      exact (startsList_reverse top).symm.nodup_iff.mp this |> fun h => h
+    | cons f fs => simp [buildToks] at hr
+  | t :: ts, p, top, stack, hT, hlt, hn, r, hr => by
+    obtain ⟨hs, htl, hT'⟩ := hT
+    have hstop : t.stop ≤ s.length := tiles_le ts t.stop s.length hT'
+    simp only [buildToks] at hr
+    cases hstep : stepTok s top stack t with
+    | error e => rw [hstep] at hr; simp at hr
+    | ok res =>
+      obtain ⟨top', stack'⟩ := res
+      rw [hstep] at hr
+      simp only at hr
+      have hcase := stepTok_starts s top top' stack stack' t htl hstop hstep
+      refine buildToks_starts s ts t.stop top' stack' hT' ?_ ?_ r hr
+      · intro x hx
+        rcases hcase with hp | ⟨y, hy1, hy2, hp⟩
+        · have := hlt x (hp.mem_iff.mp hx); omega
+        · rcases List.mem_cons.mp (hp.mem_iff.mp hx) with rfl | hx'
+          · exact hy2
+          · have := hlt x hx'; omega
+      · rcases hcase with hp | ⟨y, hy1, hy2, hp⟩
+        · exact hp.symm.nodup_iff.mp hn |> fun h => h
+        · refine hp.symm.nodup_iff.mp ?_
+          rw [List.nodup_cons]
+          refine ⟨fun hm => ?_, hn⟩
+          have := hlt y hm
+          omega
+
+/-- **Distinct positions.** In the tree of any text, every node (tag or group, at any depth) starts at a position
+of its own. -/
+theorem construct_starts_nodup (s : Str) : (startsList (construct s)).Nodup := by
+  unfold construct
+  cases h : build s with
+  | error e => simp [startsList]
+  | ok r =>
+    exact buildToks_starts s (split s) 0 [] [] (C02.tiling s).1 (by simp [allStarts, frameStarts, startsList])
+      (by simp [allStarts, frameStarts, startsList]) r h
+
+
+mutual
+theorem rstarts_resolveNode (env : Env) (s : Str) : ∀ (n : Node), rstartsNode (resolveNode env s n) = startsNode n
+  | .tag a b => by simp [resolveNode, rstartsNode, startsNode, mkTag, canon_span]
+  | .group a b ks => by simp [resolveNode, rstartsNode, startsNode, rstarts_resolveList env s ks]
+theorem rstarts_resolveList (env : Env) (s : Str) : ∀ (l : List Node), rstartsList (resolveList env s l) = startsList l
+  | [] => rfl
+  | k :: ks => by simp [resolveList, rstartsList, startsList, rstarts_resolveNode env s k, rstarts_resolveList env s ks]
+end
+
+/-- in the resolved tree of any text every node starts at a position of its own -/
+theorem parse_starts_nodup (env : Env) (s : Str) : (rstartsList (parse env s).root0).Nodup := by
+  show (rstartsList (resolveList env s (construct s))).Nodup
+  rw [rstarts_resolveList]
+  exact construct_starts_nodup s
+
 /-- every tag of a parse satisfies `P` (as the duplicate rule sees it), before and after the second pass -/
 def TagsOK (env : Env) (P : Dup.Tag → Prop) (s : Str) : Prop :=
   (∀ x ∈ tagsList (parse env s).root0, P (toDupTag env x)) ∧ (∀ x ∈ tagsList (parse env s).root1, P (toDupTag env x))
@@ -3569,15 +4589,13 @@ texts, members of every group permuted) and whose raw-text rules agree get the s
 theorem validate_sim {env : Env} {R : RTag → RTag → Prop} {Rt : Str → Str → Prop} (hR : TagRel env R)
     (hRt : ∀ w w' sp sp', Rt w w' → R (mkTagW env w sp) (mkTagW env w' sp'))
     (hs : env.var.sortCanonical = true) (he : env.var.eqFold = true)
-    {P : Dup.Tag → Prop} (hP : Dup.Adm P) (hD : DefsOK env P) (s s' : Str)
+    {P : Dup.Tag → Prop} (hP : Dup.Adm P) (hD : DefsOK env P) (ph : Bool) (s s' : Str)
     (hA : AForestSim Rt (absList s (construct s)) (absList s' (construct s')))
-    (hText : (errCodes (textIssues env s)).Perm (errCodes (textIssues env s')))
-    (hok : TagsOK env P s) (hok' : TagsOK env P s')
-    (honset : (errCodes (onsetIssues env ((parse env s).final env))).Perm
-      (errCodes (onsetIssues env ((parse env s').final env)))) :
-    (errCodes (validate env true s)).Perm (errCodes (validate env true s')) :=
-  validateP_sim hR hs he hP hD s s' (parse env s) (parse env s') (parse_wf env s) (parse_wf env s')
-    (parse_sim env hRt s s' hA) hText hok.1 hok'.1 hok.2 hok'.2 honset
+    (hText : (errCodes (textIssues env ph s)).Perm (errCodes (textIssues env ph s')))
+    (hok : TagsOK env P s) (hok' : TagsOK env P s') :
+    (errCodes (validate env ph s)).Perm (errCodes (validate env ph s')) :=
+  validateP_sim hR hs he hP hD ph s s' (parse env s) (parse env s') (parse_wf env s) (parse_wf env s')
+    (parse_sim env hRt s s' hA) hText hok.1 hok'.1 hok.2 hok'.2 (parse_starts_nodup env s) (parse_starts_nodup env s')
 
 
 /-! ### the raw-text rules on a printed forest -/
@@ -3776,19 +4794,19 @@ theorem parenIssues_render (l : List ATree) (hv : ValidList l) : parenIssues (re
   simp [parenIssues, this]
 
 /-- the codes of the character rule, character by character -/
-def charCodes (env : Env) (s : Str) : List Str :=
-  s.flatMap fun c => if badChar env true c then errCodes [charIssue 0 c] else []
+def charCodes (env : Env) (ph : Bool) (s : Str) : List Str :=
+  s.flatMap fun c => if badChar env ph c then errCodes [charIssue 0 c] else []
 
-theorem charIssues_codes (env : Env) (s : Str) : errCodes (charIssues env true s) = charCodes env s :=
-  charIssuesFrom_codes env true s 0
+theorem charIssues_codes (env : Env) (ph : Bool) (s : Str) : errCodes (charIssues env ph s) = charCodes env ph s :=
+  charIssuesFrom_codes env ph s 0
 
-theorem charCodes_append (env : Env) (a b : Str) : charCodes env (a ++ b) = charCodes env a ++ charCodes env b := by
+theorem charCodes_append (env : Env) (ph : Bool) (a b : Str) : charCodes env ph (a ++ b) = charCodes env ph a ++ charCodes env ph b := by
   simp [charCodes]
 
-theorem charCodes_delim (env : Env) (c : Char) (h : isDelim c = true) : charCodes env [c] = [] := by
+theorem charCodes_delim (env : Env) (ph : Bool) (c : Char) (h : isDelim c = true) : charCodes env ph [c] = [] := by
   simp only [isDelim, Bool.or_eq_true, beq_iff_eq] at h
-  rcases h with (rfl | rfl) | rfl <;>
-    simp [charCodes, badChar, invalidStringCharsPlaceholders, isPrintable, isAscii]
+  rcases h with (rfl | rfl) | rfl <;> cases ph <;>
+    simp [charCodes, badChar, invalidStringCharsPlaceholders, invalidStringChars, isPrintable, isAscii]
 
 mutual
 def textsNode : ATree → List Str
@@ -3805,22 +4823,22 @@ theorem textsList_eq (l : List ATree) : textsList l = l.flatMap textsNode := by
   | cons k ks ih => simp [textsList, ih]
 
 mutual
-theorem charCodes_node (env : Env) : ∀ (n : ATree), charCodes env (renderNode n) = (textsNode n).flatMap (charCodes env)
+theorem charCodes_node (env : Env) (ph : Bool) : ∀ (n : ATree), charCodes env ph (renderNode n) = (textsNode n).flatMap (charCodes env ph)
   | .tag w => by simp [renderNode, textsNode]
   | .group ks => by
-    have := charCodes_list env ks
+    have := charCodes_list env ph ks
     have e : '(' :: (renderList ks ++ [')']) = ['('] ++ renderList ks ++ [')'] := by simp
-    rw [renderNode, e, charCodes_append, charCodes_append, charCodes_delim env '(' (by decide),
-      charCodes_delim env ')' (by decide), this]
+    rw [renderNode, e, charCodes_append, charCodes_append, charCodes_delim env ph '(' (by decide),
+      charCodes_delim env ph ')' (by decide), this]
     simp [textsNode]
-theorem charCodes_list (env : Env) : ∀ (l : List ATree), charCodes env (renderList l) = (textsList l).flatMap (charCodes env)
+theorem charCodes_list (env : Env) (ph : Bool) : ∀ (l : List ATree), charCodes env ph (renderList l) = (textsList l).flatMap (charCodes env ph)
   | [] => by simp [renderList, textsList, charCodes]
-  | [n] => by simp [renderList, textsList, charCodes_node env n]
+  | [n] => by simp [renderList, textsList, charCodes_node env ph n]
   | n :: m :: ns => by
-    have h1 := charCodes_node env n
-    have h2 := charCodes_list env (m :: ns)
+    have h1 := charCodes_node env ph n
+    have h2 := charCodes_list env ph (m :: ns)
     have e : renderNode n ++ ',' :: renderList (m :: ns) = renderNode n ++ [','] ++ renderList (m :: ns) := by simp
-    rw [renderList, e, charCodes_append, charCodes_append, charCodes_delim env ',' (by decide), h1, h2]
+    rw [renderList, e, charCodes_append, charCodes_append, charCodes_delim env ph ',' (by decide), h1, h2]
     simp [textsList]
 end
 
@@ -3855,9 +4873,9 @@ theorem AForestSim.texts_flatMap {β : Type} (F : Str → List β) (hF : ∀ w w
   exact (APointSim.texts_flatMap F hF l m hm).trans (hp.flatMap_right _)
 
 /-- the raw-text rules on two printed forests whose tag texts have the same forbidden characters -/
-theorem textIssues_render (env : Env) {l l' : List ATree} (hl : SolidList env.cd l) (hl' : SolidList env.cd l')
-    (h : AForestSim Rt l l') (hRt : ∀ w w', Rt w w' → (charCodes env w).Perm (charCodes env w')) :
-    (errCodes (textIssues env (renderList l))).Perm (errCodes (textIssues env (renderList l'))) := by
+theorem textIssues_render (env : Env) (ph : Bool) {l l' : List ATree} (hl : SolidList env.cd l) (hl' : SolidList env.cd l')
+    (h : AForestSim Rt l l') (hRt : ∀ w w', Rt w w' → (charCodes env ph w).Perm (charCodes env ph w')) :
+    (errCodes (textIssues env ph (renderList l))).Perm (errCodes (textIssues env ph (renderList l'))) := by
   simp only [textIssues, errCodes_append, parenIssues_render l (solidList_valid _ l hl),
     parenIssues_render l' (solidList_valid _ l' hl'), delimIssues_render _ l hl, delimIssues_render _ l' hl',
     charIssues_codes, charCodes_list, errCodes_nil, List.append_nil]
@@ -3929,14 +4947,15 @@ def Rewritten (env : Env) (t t' : RTag) : Prop := SameTag t t' ∨ Respelled env
 theorem rewritten_rel (env : Env) : TagRel env (Rewritten env) where
   core := fun _ _ h => h.elim SameTag.core (·.core)
   slash := fun t t' h => h.elim ((sameTag_rel env).slash t t') (·.slash)
-  chars := fun t t' h => h.elim ((sameTag_rel env).chars t t') (·.chars)
+  chars := fun t t' h ph => h.elim (fun g => (sameTag_rel env).chars t t' g ph) (fun g => g.chars ph)
   recanon := fun t t' h => h.elim (fun g => Or.inl (canon_same env g))
     (fun g => Or.inr (by rw [g.stable.1, g.stable.2]; exact g))
   lookup := fun t t' h => (errCodes_of_sigs (canon_core_sigs env (h.elim SameTag.core (·.core)))).symm
 
 /-- tag texts: the same text, or another spelling of the same tag with the same forbidden characters -/
 def RespellText (env : Env) (w w' : Str) : Prop :=
-  w' = w ∨ ((∀ sp sp', Respelled env (mkTagW env w sp) (mkTagW env w' sp')) ∧ (charCodes env w).Perm (charCodes env w'))
+  w' = w ∨ ((∀ sp sp', Respelled env (mkTagW env w sp) (mkTagW env w' sp')) ∧
+    ∀ ph, (charCodes env ph w).Perm (charCodes env ph w'))
 
 theorem respellText_tag (env : Env) (w w' : Str) (sp sp' : Nat × Nat) (h : RespellText env w w') :
     Rewritten env (mkTagW env w sp) (mkTagW env w' sp') := by
@@ -3944,11 +4963,11 @@ theorem respellText_tag (env : Env) (w w' : Str) (sp sp' : Nat × Nat) (h : Resp
   · exact Or.inl (mkTagW_same env _ sp sp')
   · exact Or.inr (h.1 sp sp')
 
-theorem respellText_chars (env : Env) (w w' : Str) (h : RespellText env w w') :
-    (charCodes env w).Perm (charCodes env w') := by
+theorem respellText_chars (env : Env) (ph : Bool) (w w' : Str) (h : RespellText env w w') :
+    (charCodes env ph w).Perm (charCodes env ph w') := by
   rcases h with rfl | h
   · exact List.Perm.refl _
-  · exact h.2
+  · exact h.2 ph
 
 /-- two spellings that the look-up resolves to the same entry with the same remainder give `Core` tags (C03
 provides the premise: `C04.spelling_same_node`, `C03.forms_roundtrip_remainder`) -/
@@ -3968,41 +4987,38 @@ namespace HedVerif.C04
 open HedVerif HedVerif.Validate HedVerif.Rewrite Tok Tree
 
 /-- what is assumed of every text the rewrites pass through: its tags are admissible for the duplicate rule
-(C02/C03 facts, `Dup.Adm`), and no top-level group is anchored by Onset/Offset/Inset (the one rule whose
-invariance is a premise of `Rewrite.validate_sim` instead of a theorem) -/
-def TextOK (env : Env) (P : Dup.Tag → Prop) (s : Str) : Prop :=
-  TagsOK env P s ∧ NoTemporal env ((parse env s).final env)
+(`Dup.Adm`: what C02 and C03 say of parsed, resolved tags) -/
+def TextOK (env : Env) (P : Dup.Tag → Prop) (s : Str) : Prop := TagsOK env P s
+
+/-- **Distinct positions** (every text): in the tree of `HedString(s)` every tag and every group, at any depth,
+starts at a position of its own.  This is what identifies a node where the code tests identity (`is`). -/
+theorem construct_starts_nodup (s : Str) : (startsList (construct s)).Nodup := Rewrite.construct_starts_nodup s
 
 /-- **Spacing, parse level, every text** (`Tok.split`, `Tree.construct`): same tag texts, same tree up to spans. -/
 theorem spacing_invariant_text {s s' : Str} (h : Blank s s') :
     tagTexts s = tagTexts s' ∧ absList s (construct s) = absList s' (construct s') :=
   Rewrite.spacing_invariant_text h
 
-/-- the onset premise from `TextOK` -/
-theorem onset_premise {env : Env} {P : Dup.Tag → Prop} {s s' : Str} (h : TextOK env P s) (h' : TextOK env P s') :
-    (errCodes (onsetIssues env ((parse env s).final env))).Perm (errCodes (onsetIssues env ((parse env s').final env))) := by
-  rw [onsetIssues_nil h.2, onsetIssues_nil h'.2]
-
-/-- **Spacing, whole validator** (all rules; the Onset/Offset/Inset group rule under `TextOK`). -/
-theorem spacing_invariant_full_partial (env : Env) (hs : env.var.sortCanonical = true) (he : env.var.eqFold = true)
-    {P : Dup.Tag → Prop} (hP : Dup.Adm P) (hD : DefsOK env P) {s s' : Str} (h : Blank s s')
+/-- **Spacing, whole validator**, every rule, both values of `allow_placeholders`, every text. -/
+theorem spacing_invariant_full (env : Env) (hs : env.var.sortCanonical = true) (he : env.var.eqFold = true)
+    {P : Dup.Tag → Prop} (hP : Dup.Adm P) (hD : DefsOK env P) (ph : Bool) {s s' : Str} (h : Blank s s')
     (hok : TextOK env P s) (hok' : TextOK env P s') :
-    (errCodes (validate env true s)).Perm (errCodes (validate env true s')) := by
+    (errCodes (validate env ph s)).Perm (errCodes (validate env ph s')) := by
   refine validate_sim (sameTag_rel env) (Rt := Eq) (fun w w' sp sp' hw => by subst hw; exact mkTagW_same env _ sp sp')
-    hs he hP hD s s' ?_ (List.Perm.of_eq (textIssues_blankRel env h)) hok.1 hok'.1 (onset_premise hok hok')
+    hs he hP hD ph s s' ?_ (List.Perm.of_eq (textIssues_blankRel env ph h)) hok hok'
   rw [(Rewrite.spacing_invariant_text h).2]
   exact aForestSim_refl _
 
 /-- **Order and spelling, whole validator, on printed annotations.** For forests `T`, `T'` of tags and groups
 with the same shape up to the order of the members of every group (and of the top level), whose tag texts are
 equal or respellings of each other: validating the two printed texts gives the same multiset of error codes. -/
-theorem rewrite_printed_invariant_partial (env : Env) (hs : env.var.sortCanonical = true) (he : env.var.eqFold = true)
-    {P : Dup.Tag → Prop} (hP : Dup.Adm P) (hD : DefsOK env P) {T T' : List ATree}
+theorem rewrite_printed_invariant (env : Env) (hs : env.var.sortCanonical = true) (he : env.var.eqFold = true)
+    {P : Dup.Tag → Prop} (hP : Dup.Adm P) (hD : DefsOK env P) (ph : Bool) {T T' : List ATree}
     (hT : SolidList env.cd T) (hT' : SolidList env.cd T') (h : AForestSim (RespellText env) T T')
     (hok : TextOK env P (renderList T)) (hok' : TextOK env P (renderList T')) :
-    (errCodes (validate env true (renderList T))).Perm (errCodes (validate env true (renderList T'))) := by
+    (errCodes (validate env ph (renderList T))).Perm (errCodes (validate env ph (renderList T'))) := by
   refine validate_sim (rewritten_rel env) (Rt := RespellText env) (fun w w' sp sp' hw => respellText_tag env w w' sp sp' hw)
-    hs he hP hD _ _ ?_ (textIssues_render env hT hT' h (respellText_chars env)) hok.1 hok'.1 (onset_premise hok hok')
+    hs he hP hD ph _ _ ?_ (textIssues_render env ph hT hT' h (respellText_chars env ph)) hok hok'
   rw [(C02.roundtrip_original T (solidList_valid _ T hT)).2.1, (C02.roundtrip_original T' (solidList_valid _ T' hT')).2.1]
   exact h
 
@@ -4024,24 +5040,24 @@ theorem aPointSim_mono {Rt Rt' : Str → Str → Prop} (hm : ∀ w w', Rt w w' 
 end
 
 /-- **Order, whole validator**: permuting the members of any group or of the top level, at any depth. -/
-theorem order_invariant_full_partial (env : Env) (hs : env.var.sortCanonical = true) (he : env.var.eqFold = true)
-    {P : Dup.Tag → Prop} (hP : Dup.Adm P) (hD : DefsOK env P) {T T' : List ATree}
+theorem order_invariant_full (env : Env) (hs : env.var.sortCanonical = true) (he : env.var.eqFold = true)
+    {P : Dup.Tag → Prop} (hP : Dup.Adm P) (hD : DefsOK env P) (ph : Bool) {T T' : List ATree}
     (hT : SolidList env.cd T) (hT' : SolidList env.cd T') (h : AForestSim Eq T T')
     (hok : TextOK env P (renderList T)) (hok' : TextOK env P (renderList T')) :
-    (errCodes (validate env true (renderList T))).Perm (errCodes (validate env true (renderList T'))) := by
+    (errCodes (validate env ph (renderList T))).Perm (errCodes (validate env ph (renderList T'))) := by
   obtain ⟨m, hm, hp⟩ := h
-  exact rewrite_printed_invariant_partial env hs he hP hD hT hT'
+  exact rewrite_printed_invariant env hs he hP hD ph hT hT'
     ⟨m, aPointSim_mono (fun w w' hw => Or.inl hw.symm) T m hm, hp⟩ hok hok'
 
 /-- **Spelling, whole validator**: every tag text replaced by a respelling (`RespellText`: the two texts resolve
 to tags the schema-based rules cannot tell apart — same namespace, entry and value, C03 —, the slash and
 character rules say the same about both, and both have the same forbidden characters). -/
-theorem spelling_invariant_full_partial (env : Env) (hs : env.var.sortCanonical = true) (he : env.var.eqFold = true)
-    {P : Dup.Tag → Prop} (hP : Dup.Adm P) (hD : DefsOK env P) {T T' : List ATree}
+theorem spelling_invariant_full (env : Env) (hs : env.var.sortCanonical = true) (he : env.var.eqFold = true)
+    {P : Dup.Tag → Prop} (hP : Dup.Adm P) (hD : DefsOK env P) (ph : Bool) {T T' : List ATree}
     (hT : SolidList env.cd T) (hT' : SolidList env.cd T') (h : APointSim (RespellText env) T T')
     (hok : TextOK env P (renderList T)) (hok' : TextOK env P (renderList T')) :
-    (errCodes (validate env true (renderList T))).Perm (errCodes (validate env true (renderList T'))) :=
-  rewrite_printed_invariant_partial env hs he hP hD hT hT' ⟨T', h, List.Perm.refl _⟩ hok hok'
+    (errCodes (validate env ph (renderList T))).Perm (errCodes (validate env ph (renderList T'))) :=
+  rewrite_printed_invariant env hs he hP hD ph hT hT' ⟨T', h, List.Perm.refl _⟩ hok hok'
 
 /-- **The rewrites of C04**, on texts: blanks next to delimiters or at the ends (any text), and — on printed
 annotations — respelling tags and permuting the members of groups; composed freely. -/
@@ -4052,17 +5068,31 @@ inductive Rewrite (env : Env) (Ok : Str → Prop) : Str → Str → Prop
       Ok (renderList T) → Ok (renderList T') → Rewrite env Ok (renderList T) (renderList T')
   | trans {a b c : Str} : Rewrite env Ok a b → Rewrite env Ok b c → Rewrite env Ok a c
 
-/-- **C04 for the whole validator** (`HedValidator.validate` with placeholders allowed, the duplicate rule after
-the C04 fixes): any composition of the rewrites leaves the multiset of error codes unchanged. -/
-theorem rewrite_invariant_partial (env : Env) (hs : env.var.sortCanonical = true) (he : env.var.eqFold = true)
-    {P : Dup.Tag → Prop} (hP : Dup.Adm P) (hD : DefsOK env P) {Ok : Str → Prop} (hOk : ∀ s, Ok s → TextOK env P s)
-    {s s' : Str} (h : Rewrite env Ok s s') :
-    (errCodes (validate env true s)).Perm (errCodes (validate env true s')) := by
+/-- **C04 for the whole validator** (`HedValidator.validate`, both values of `allow_placeholders`, the duplicate
+rule after the C04 fixes): any composition of the rewrites leaves the multiset of error codes unchanged. -/
+theorem rewrite_invariant (env : Env) (hs : env.var.sortCanonical = true) (he : env.var.eqFold = true)
+    {P : Dup.Tag → Prop} (hP : Dup.Adm P) (hD : DefsOK env P) (ph : Bool) {Ok : Str → Prop}
+    (hOk : ∀ s, Ok s → TextOK env P s) {s s' : Str} (h : Rewrite env Ok s s') :
+    (errCodes (validate env ph s)).Perm (errCodes (validate env ph s')) := by
   induction h with
   | refl => exact List.Perm.refl _
-  | blank hb o o' => exact spacing_invariant_full_partial env hs he hP hD hb (hOk _ o) (hOk _ o')
-  | printed hT hT' hA o o' => exact rewrite_printed_invariant_partial env hs he hP hD hT hT' hA (hOk _ o) (hOk _ o')
+  | blank hb o o' => exact spacing_invariant_full env hs he hP hD ph hb (hOk _ o) (hOk _ o')
+  | printed hT hT' hA o o' => exact rewrite_printed_invariant env hs he hP hD ph hT hT' hA (hOk _ o) (hOk _ o')
   | trans _ _ ih1 ih2 => exact ih1.trans ih2
+
+/-- **Order and spelling for texts that are not printed canonically.** The texts reached are exactly those that
+differ from a printed forest by blanks next to delimiters or at the ends (`Blank s (renderList T)`): for two
+such texts whose forests are related, the error codes agree. -/
+theorem rewrite_invariant_text (env : Env) (hs : env.var.sortCanonical = true) (he : env.var.eqFold = true)
+    {P : Dup.Tag → Prop} (hP : Dup.Adm P) (hD : DefsOK env P) (ph : Bool) {s s' : Str} {T T' : List ATree}
+    (hT : SolidList env.cd T) (hT' : SolidList env.cd T') (hb : Blank s (renderList T)) (hb' : Blank s' (renderList T'))
+    (h : AForestSim (RespellText env) T T')
+    (hok : TextOK env P s) (hok' : TextOK env P s')
+    (hpr : TextOK env P (renderList T)) (hpr' : TextOK env P (renderList T')) :
+    (errCodes (validate env ph s)).Perm (errCodes (validate env ph s')) :=
+  ((spacing_invariant_full env hs he hP hD ph hb hok hpr).trans
+    (rewrite_printed_invariant env hs he hP hD ph hT hT' h hpr hpr')).trans
+    (spacing_invariant_full env hs he hP hD ph hb' hok' hpr').symm
 
 /-- **Model equivalence**: the duplicate rule inside the full validator model is the one of `Model/Dup.lean`
 (for which `order_invariant`, `repeated_anywhere`, `no_false_repeat` are proved). -/
@@ -4087,7 +5117,7 @@ theorem defsOK_ex : DefsOK envEx ShortClean := by
   simp [defExpansion, defLookup, envEx] at h
 
 theorem textOK_ab : TextOK envEx ShortClean ['a', ',', 'b'] := by
-  refine ⟨⟨?_, ?_⟩, ?_⟩
+  refine ⟨?_, ?_⟩
   · have : (parse envEx ['a', ',', 'b']).root0 =
         [.tag ⟨(0,1), ['a'], [], none, []⟩, .tag ⟨(2,3), ['b'], [], none, []⟩] := by rfl
     rw [this]
@@ -4096,11 +5126,9 @@ theorem textOK_ab : TextOK envEx ShortClean ['a', ',', 'b'] := by
         [.tag ⟨(0,1), ['a'], [], none, []⟩, .tag ⟨(2,3), ['b'], [], none, []⟩] := by rfl
     rw [this]
     simp [tagsList, tagsNode, toDupTag, strOf, Validate.fold, ShortClean, Dup.CleanStr]
-  · show topLevelAnchored envEx _ _ = []
-    rfl
 
 theorem textOK_a_b : TextOK envEx ShortClean ['a', ',', ' ', 'b'] := by
-  refine ⟨⟨?_, ?_⟩, ?_⟩
+  refine ⟨?_, ?_⟩
   · have : (parse envEx ['a', ',', ' ', 'b']).root0 =
         [.tag ⟨(0,1), ['a'], [], none, []⟩, .tag ⟨(3,4), ['b'], [], none, []⟩] := by rfl
     rw [this]
@@ -4109,11 +5137,9 @@ theorem textOK_a_b : TextOK envEx ShortClean ['a', ',', ' ', 'b'] := by
         [.tag ⟨(0,1), ['a'], [], none, []⟩, .tag ⟨(3,4), ['b'], [], none, []⟩] := by rfl
     rw [this]
     simp [tagsList, tagsNode, toDupTag, strOf, Validate.fold, ShortClean, Dup.CleanStr]
-  · show topLevelAnchored envEx _ _ = []
-    rfl
 
 theorem textOK_ba : TextOK envEx ShortClean ['b', ',', 'a'] := by
-  refine ⟨⟨?_, ?_⟩, ?_⟩
+  refine ⟨?_, ?_⟩
   · have : (parse envEx ['b', ',', 'a']).root0 =
         [.tag ⟨(0,1), ['b'], [], none, []⟩, .tag ⟨(2,3), ['a'], [], none, []⟩] := by rfl
     rw [this]
@@ -4122,22 +5148,20 @@ theorem textOK_ba : TextOK envEx ShortClean ['b', ',', 'a'] := by
         [.tag ⟨(0,1), ['b'], [], none, []⟩, .tag ⟨(2,3), ['a'], [], none, []⟩] := by rfl
     rw [this]
     simp [tagsList, tagsNode, toDupTag, strOf, Validate.fold, ShortClean, Dup.CleanStr]
-  · show topLevelAnchored envEx _ _ = []
-    rfl
 
 /-- `a,b` and `a, b` -/
 example : (errCodes (validate envEx true ['a', ',', 'b'])).Perm (errCodes (validate envEx true ['a', ',', ' ', 'b'])) :=
-  spacing_invariant_full_partial envEx rfl rfl shortClean_adm defsOK_ex
+  spacing_invariant_full envEx rfl rfl shortClean_adm defsOK_ex true
     (Blank.ins (BlankStep.after ['a'] ['b'] ',' rfl)) textOK_ab textOK_a_b
 
 /-- `a,b` and `b,a` -/
-example : (errCodes (validate envEx true ['a', ',', 'b'])).Perm (errCodes (validate envEx true ['b', ',', 'a'])) := by
+example : (errCodes (validate envEx false ['a', ',', 'b'])).Perm (errCodes (validate envEx false ['b', ',', 'a'])) := by
   have hT : SolidList envEx.cd [ATree.tag ['a'], ATree.tag ['b']] := by
     simp [SolidList, SolidNode, SolidText, ValidText, isDelim, Validate.isSpace, Validate.isAscii, envEx]
   have hT' : SolidList envEx.cd [ATree.tag ['b'], ATree.tag ['a']] := by
     simp [SolidList, SolidNode, SolidText, ValidText, isDelim, Validate.isSpace, Validate.isAscii, envEx]
   have hsim : AForestSim Eq [ATree.tag ['a'], ATree.tag ['b']] [ATree.tag ['b'], ATree.tag ['a']] :=
     ⟨_, aPointSim_refl _, List.Perm.swap _ _ _⟩
-  exact order_invariant_full_partial envEx rfl rfl shortClean_adm defsOK_ex hT hT' hsim textOK_ab textOK_ba
+  exact order_invariant_full envEx rfl rfl shortClean_adm defsOK_ex false hT hT' hsim textOK_ab textOK_ba
 
 end HedVerif.C04
